@@ -44,43 +44,103 @@ Proof.
   - destruct H; auto. apply IHl in H. tauto.
 Qed.
 
-(* ---------- the clock (uptime.c) while the 32-bit counter does not wrap ---------- *)
-Definition NW (s : st) : Prop := cnt0 s + (now s - tb s) < 4294967296.
-Definition rd (s : st) (t : Z) : Z := (cnt0 s + (t - tb s)) / 1000.      (* millisecond reading at true time t *)
+(* ---------- the clock (uptime.c), counter wraps included ----------
+   A = cnt0 + (t - tb) is the unwrapped microsecond count at true time t.  uptime_usec keeps (upc, upl) = (A / 2^32,
+   A mod 2^32) of its last reading as long as two readings are less than one counter period apart, and returns
+   upc * (2^32 - 1) + upl = A - A / 2^32: the device's clock loses one microsecond per wrap (C19: usec_at_accurate).
+   WB bounds the number of wraps since the last boot; with WB = 0 this is the plain "no wrap" hypothesis. *)
+Class Wraps := { WB : Z; WB_range : 0 <= WB < 1073741824 }.
+Definition up64 (a : Z) : Z := a - a / 4294967296.
+Definition rd (s : st) (t : Z) : Z := up64 (cnt0 s + (t - tb s)) / 1000.      (* millisecond reading at true time t *)
+(* every reading of the clock came less than one counter period after the previous one *)
+Definition Polled (l : list out) : Prop := forall p a, In (GPoll p a) l -> a - p < 4294967296.
 Definition ClockOK (s : st) : Prop :=
-  upc s = 0 /\ 0 <= upl s <= cnt0 s + (now s - tb s) /\ 0 <= cnt0 s /\ tb s <= now s.
+  0 <= upl s < 4294967296 /\ 0 <= upc s /\ upc s * 4294967296 + upl s <= cnt0 s + (now s - tb s) /\
+  0 <= cnt0 s /\ tb s <= now s.
 
-Lemma uptime_usec_spec s : ClockOK s -> NW s ->
-  uptime_usec s = (set_upl (cnt0 s + (now s - tb s)) (set_upc 0 s), cnt0 s + (now s - tb s)).
+Lemma up64_mono a b : a <= b -> up64 a <= up64 b.
 Proof.
-  intros (Hc & Hl & H0 & Ht) Hn. unfold NW in Hn. unfold uptime_usec, counter.
-  rewrite u32_small by lia.
-  destruct (_ <? upl s) eqn:E; [apply Z.ltb_lt in E; lia|]. rewrite Hc. f_equal.
+  intros H. unfold up64.
+  pose proof (Z.div_mod a 4294967296 ltac:(lia)). pose proof (Z.div_mod b 4294967296 ltac:(lia)).
+  pose proof (Z.mod_pos_bound a 4294967296 ltac:(lia)). pose proof (Z.mod_pos_bound b 4294967296 ltac:(lia)).
+  pose proof (Z.div_le_mono a b 4294967296 ltac:(lia) H). lia.
 Qed.
-Lemma uptime_msec_spec s : ClockOK s -> NW s ->
-  uptime_msec s = (set_upl (cnt0 s + (now s - tb s)) (set_upc 0 s), rd s (now s)).
-Proof. intros. unfold uptime_msec. rewrite uptime_usec_spec by auto. reflexivity. Qed.
+Lemma up64_nonneg a : 0 <= a -> 0 <= up64 a.
+Proof. intros H. pose proof (up64_mono 0 a H). unfold up64 in *. cbn in H0. exact H0. Qed.
+Lemma up64_le a : 0 <= a -> up64 a <= a.
+Proof. intros H. unfold up64. pose proof (Z.div_pos a 4294967296 H ltac:(lia)). lia. Qed.
+(* the device clock never runs fast, and is slow by at most the number of wraps *)
+Lemma up64_diff a b : a <= b -> up64 b - up64 a <= b - a.
+Proof. intros H. unfold up64. pose proof (Z.div_le_mono a b 4294967296 ltac:(lia) H). lia. Qed.
+Lemma up64_diff_lo a b w : 0 <= a -> a <= b -> b < (w + 1) * 4294967296 -> b - a - w <= up64 b - up64 a.
+Proof.
+  intros Ha H Hb. unfold up64. pose proof (Z.div_pos a 4294967296 Ha ltac:(lia)).
+  assert (b / 4294967296 < w + 1) by (apply Z.div_lt_upper_bound; lia). lia.
+Qed.
 
 Lemma rd_mono s a b : a <= b -> rd s a <= rd s b.
-Proof. intros. unfold rd. apply Z.div_le_mono; lia. Qed.
-(* a difference of d in the readings means more than d-1 ms and less than d+1 ms of true time *)
-Lemma rd_diff_lo s a b d : d <= rd s b - rd s a -> (d - 1) * 1000 < b - a.
+Proof. intros. unfold rd. apply Z.div_le_mono; [lia|]. apply up64_mono. lia. Qed.
+(* a difference of d in the readings means more than d-1 ms of true time ... *)
+Lemma rd_diff_lo s a b d : a <= b -> d <= rd s b - rd s a -> (d - 1) * 1000 < b - a.
 Proof.
-  unfold rd. intros H.
-  pose proof (Z.div_mod (cnt0 s + (b - tb s)) 1000 ltac:(lia)).
-  pose proof (Z.div_mod (cnt0 s + (a - tb s)) 1000 ltac:(lia)).
-  pose proof (Z.mod_pos_bound (cnt0 s + (b - tb s)) 1000 ltac:(lia)).
-  pose proof (Z.mod_pos_bound (cnt0 s + (a - tb s)) 1000 ltac:(lia)).
+  unfold rd. intros Hab H.
+  pose proof (up64_diff (cnt0 s + (a - tb s)) (cnt0 s + (b - tb s)) ltac:(lia)) as D.
+  pose proof (Z.div_mod (up64 (cnt0 s + (b - tb s))) 1000 ltac:(lia)).
+  pose proof (Z.div_mod (up64 (cnt0 s + (a - tb s))) 1000 ltac:(lia)).
+  pose proof (Z.mod_pos_bound (up64 (cnt0 s + (b - tb s))) 1000 ltac:(lia)).
+  pose proof (Z.mod_pos_bound (up64 (cnt0 s + (a - tb s))) 1000 ltac:(lia)).
   lia.
 Qed.
-Lemma rd_diff_hi s a b d : rd s b - rd s a <= d -> b - a < (d + 1) * 1000.
+(* ... and less than d+1 ms plus one microsecond per wrap of the counter *)
+Lemma rd_diff_hi s a b d w :
+  0 <= cnt0 s + (a - tb s) -> a <= b -> cnt0 s + (b - tb s) < (w + 1) * 4294967296 ->
+  rd s b - rd s a <= d -> b - a < (d + 1) * 1000 + w.
 Proof.
-  unfold rd. intros H.
-  pose proof (Z.div_mod (cnt0 s + (b - tb s)) 1000 ltac:(lia)).
-  pose proof (Z.div_mod (cnt0 s + (a - tb s)) 1000 ltac:(lia)).
-  pose proof (Z.mod_pos_bound (cnt0 s + (b - tb s)) 1000 ltac:(lia)).
-  pose proof (Z.mod_pos_bound (cnt0 s + (a - tb s)) 1000 ltac:(lia)).
+  unfold rd. intros Ha Hab Hb H.
+  pose proof (up64_diff_lo (cnt0 s + (a - tb s)) (cnt0 s + (b - tb s)) w Ha ltac:(lia) Hb) as D.
+  pose proof (Z.div_mod (up64 (cnt0 s + (b - tb s))) 1000 ltac:(lia)).
+  pose proof (Z.div_mod (up64 (cnt0 s + (a - tb s))) 1000 ltac:(lia)).
+  pose proof (Z.mod_pos_bound (up64 (cnt0 s + (b - tb s))) 1000 ltac:(lia)).
+  pose proof (Z.mod_pos_bound (up64 (cnt0 s + (a - tb s))) 1000 ltac:(lia)).
   lia.
+Qed.
+
+Section W.
+Context {wr : Wraps}.
+(* at most WB wraps since the last boot, and (unless WB = 0) the clock was polled in time *)
+Definition NWw (s : st) : Prop :=
+  cnt0 s + (now s - tb s) < (WB + 1) * 4294967296 /\ (WB = 0 \/ Polled (outs s)).
+
+Lemma uptime_usec_spec s : ClockOK s -> NWw (fst (uptime_usec s)) ->
+  uptime_usec s =
+    (emit (GPoll (upc s * 4294967296 + upl s) (cnt0 s + (now s - tb s)))
+          (set_upl ((cnt0 s + (now s - tb s)) mod 4294967296) (set_upc ((cnt0 s + (now s - tb s)) / 4294967296) s)),
+     up64 (cnt0 s + (now s - tb s))).
+Proof.
+  intros (Hl & Hc & HL & H0 & Ht) [Hn Hp]. pose proof WB_range as HW.
+  unfold uptime_usec in *. cbn [fst emit set_outs outs cnt0 now tb set_upl set_upc] in Hn, Hp.
+  unfold counter, u32.
+  set (A := cnt0 s + (now s - tb s)) in *.
+  assert (Gap : A - (upc s * 4294967296 + upl s) < 4294967296).
+  { destruct Hp as [E|Hp]; [rewrite E in Hn; lia|]. apply Hp. left. reflexivity. }
+  pose proof (Z.div_mod A 4294967296 ltac:(lia)) as DM. pose proof (Z.mod_pos_bound A 4294967296 ltac:(lia)) as MB.
+  assert (Q : A / 4294967296 < WB + 1) by (apply Z.div_lt_upper_bound; lia).
+  assert (Q0 : 0 <= A / 4294967296) by (apply Z.div_pos; lia).
+  destruct (A mod 4294967296 <? upl s) eqn:E.
+  - apply Z.ltb_lt in E. assert (Eq : A / 4294967296 = upc s + 1) by nia.
+    rewrite (Z.mod_small (upc s + 1)) by lia. rewrite <- Eq. unfold up64. f_equal. lia.
+  - apply Z.ltb_ge in E. assert (Eq : A / 4294967296 = upc s) by nia.
+    rewrite <- Eq. unfold up64. f_equal. lia.
+Qed.
+Lemma uptime_msec_spec s : ClockOK s -> NWw (fst (uptime_msec s)) ->
+  uptime_msec s =
+    (emit (GPoll (upc s * 4294967296 + upl s) (cnt0 s + (now s - tb s)))
+          (set_upl ((cnt0 s + (now s - tb s)) mod 4294967296) (set_upc ((cnt0 s + (now s - tb s)) / 4294967296) s)),
+     rd s (now s)).
+Proof.
+  intros C N. unfold uptime_msec in *. destruct (uptime_usec s) as [s1 u] eqn:E. cbn [fst] in N.
+  assert (N' : NWw (fst (uptime_usec s))) by (rewrite E; exact N).
+  rewrite (uptime_usec_spec s C N') in E. injection E as <- <-. reflexivity.
 Qed.
 
 (* ---------- passive steps: everything that neither touches the slot table nor the shared timer ---------- *)
@@ -301,8 +361,16 @@ Proof.
 Qed.
 Lemma Inv_emit o s : Inv s -> Inv (emit o s).
 Proof. apply Inv_ext; reflexivity. Qed.
-Lemma NW_passive s s' : passive s s' -> NW s' -> NW s.
-Proof. intros [] H. unfold NW in *. rewrite pa_cnt1, pa_tb0 in H. lia. Qed.
+Lemma Polled_app a l : Polled (a ++ l) -> Polled l.
+Proof. intros H p x Hin. apply (H p x). apply in_or_app. auto. Qed.
+Lemma NW_ext s s' :
+  cnt0 s' = cnt0 s -> tb s' = tb s -> now s <= now s' -> (exists add, outs s' = add ++ outs s) -> NWw s' -> NWw s.
+Proof.
+  intros E1 E2 Hn (add & Eo) [H1 H2]. split; [rewrite E1, E2 in H1; lia|].
+  destruct H2 as [H2|H2]; [left; exact H2|right]. rewrite Eo in H2. eapply Polled_app; eauto.
+Qed.
+Lemma NW_passive s s' : passive s s' -> NWw s' -> NWw s.
+Proof. intros [] H. eapply NW_ext; eauto. destruct pa_outs0 as (add & E & _). exists add. exact E. Qed.
 
 (* ---------- searching the slot table ---------- *)
 Lemma find_slot_some l : forall idx ch i, find_slot l idx ch = Some i ->
@@ -331,14 +399,23 @@ Proof.
   - apply IH. intros x Hx. apply H. cbn; auto.
 Qed.
 
-Lemma passive_uptime s : ClockOK s -> NW s -> passive s (fst (uptime_msec s)) /\ snd (uptime_msec s) = rd s (now s)
-  /\ now (fst (uptime_msec s)) = now s /\ outs (fst (uptime_msec s)) = outs s.
+Lemma passive_uptime s : ClockOK s -> NWw (fst (uptime_msec s)) -> passive s (fst (uptime_msec s)) /\ snd (uptime_msec s) = rd s (now s)
+  /\ now (fst (uptime_msec s)) = now s.
 Proof.
   intros C N. rewrite uptime_msec_spec by auto. cbn [fst snd]. split; [|auto].
-  destruct C as (A & B & D & E). unfold NW in N.
+  destruct C as (A & B & L & D & E).
+  pose proof (Z.div_mod (cnt0 s + (now s - tb s)) 4294967296 ltac:(lia)) as DM.
+  pose proof (Z.mod_pos_bound (cnt0 s + (now s - tb s)) 4294967296 ltac:(lia)) as MB.
+  assert (Q0 : 0 <= (cnt0 s + (now s - tb s)) / 4294967296) by (apply Z.div_pos; lia).
   constructor; cbn; try reflexivity; try lia.
   - intros _. unfold ClockOK; cbn. lia.
-  - exists []; auto.
+  - eexists [_]; split; [reflexivity|]. repeat constructor.
+Qed.
+
+Lemma passive_uptime_usec s : ClockOK s -> NWw (fst (uptime_usec s)) -> passive s (fst (uptime_usec s)).
+Proof.
+  intros C N. pose proof (passive_uptime s C) as H. unfold uptime_msec in H.
+  destruct (uptime_usec s) as [s1 u]. cbn [fst snd] in *. apply H; auto.
 Qed.
 
 (* ---------- replacing one slot ---------- *)
@@ -441,25 +518,64 @@ Proof.
 Qed.
 Lemma frame_passive s s' : passive s s' -> frame s s'.
 Proof. intros []. constructor; auto. destruct pa_outs0 as (a & E & _). exists a; auto. Qed.
-Lemma NW_frame s s' : frame s s' -> NW s' -> NW s.
-Proof. intros [] H. unfold NW in *. rewrite fr_cnt1, fr_tb0 in H. lia. Qed.
+Lemma NW_frame s s' : frame s s' -> NWw s' -> NWw s.
+Proof. intros [] H. eapply NW_ext; eauto. Qed.
 
 Lemma u64_small z : 0 <= z < 18446744073709551616 -> z mod 18446744073709551616 = z.
 Proof. intros; apply Z.mod_small; lia. Qed.
 
-Lemma rd_bound s t : 0 <= cnt0 s -> tb s <= t -> cnt0 s + (t - tb s) < 4294967296 -> 0 <= rd s t < 4294968.
+Lemma rd_bound s t : 0 <= cnt0 s -> tb s <= t -> cnt0 s + (t - tb s) < 4611686018427387904 -> 0 <= rd s t < 4611686018427387904.
 Proof.
-  intros. unfold rd. split. - apply Z.div_pos; lia. - apply Z.div_lt_upper_bound; lia.
+  intros. unfold rd. pose proof (up64_nonneg (cnt0 s + (t - tb s)) ltac:(lia)). pose proof (up64_le (cnt0 s + (t - tb s)) ltac:(lia)).
+  split. - apply Z.div_pos; lia. - apply Z.div_lt_upper_bound; lia.
 Qed.
+Lemma NW_big s : NWw s -> cnt0 s + (now s - tb s) < 4611686018427387904.
+Proof. intros [H _]. pose proof WB_range. nia. Qed.
 
 Definition finish_of (x : slot) (tcb u : Z) : out :=
   GFinish tcb (s_chan x) (s_target x) (g_t0 x) (g_dur x) (g_u0 x) u.
 
+Lemma frame_uptime s : frame s (fst (uptime_msec s)).
+Proof.
+  unfold uptime_msec, uptime_usec. cbn [fst]. constructor; cbn; try reflexivity; try lia. eexists [_]; reflexivity.
+Qed.
+Lemma frame_uptime_usec s : frame s (fst (uptime_usec s)).
+Proof. unfold uptime_usec. cbn [fst]. constructor; cbn; try reflexivity; try lia. eexists [_]; reflexivity. Qed.
+Lemma cb_slot_frame c a s : frame s (cb_slot c a s).
+Proof.
+  unfold cb_slot. destruct (active _); [|apply frame_refl].
+  pose proof (frame_uptime s) as F1. destruct (uptime_msec s) as [s1 u]. cbn [fst] in F1.
+  destruct (_ <=? _).
+  - pose proof (passive_chan_set_value c (s_gpio (nth (Z.to_nat a) (slots s) slot_free))
+        (if s_target (nth (Z.to_nat a) (slots s) slot_free) =? 0 then LO else HI) (s_chan (nth (Z.to_nat a) (slots s) slot_free)) s1) as P.
+    destruct (chan_set_value _ _ _ _ s1) as [s3 ok]. cbn [fst] in P.
+    eapply frame_trans; [exact F1|]. eapply frame_trans; [apply frame_passive; exact P|].
+    eapply frame_trans; [apply frame_passive; apply passive_t2_set|].
+    constructor; cbn; try reflexivity; try lia. eexists [_]; reflexivity.
+  - eapply frame_trans; [exact F1|]. eapply frame_trans; [apply frame_passive; apply passive_t2_set|].
+    constructor; cbn; try reflexivity; try lia. exists []; reflexivity.
+Qed.
+
+Lemma cb_slot_frame1 c a s :
+  active (nth (Z.to_nat a) (slots s) slot_free) = true -> frame (fst (uptime_msec s)) (cb_slot c a s).
+Proof.
+  intros A. unfold cb_slot. rewrite A. destruct (uptime_msec s) as [s1 u]. cbn [fst].
+  destruct (_ <=? _).
+  - pose proof (passive_chan_set_value c (s_gpio (nth (Z.to_nat a) (slots s) slot_free))
+        (if s_target (nth (Z.to_nat a) (slots s) slot_free) =? 0 then LO else HI) (s_chan (nth (Z.to_nat a) (slots s) slot_free)) s1) as P.
+    destruct (chan_set_value _ _ _ _ s1) as [s3 ok]. cbn [fst] in P.
+    eapply frame_trans; [apply frame_passive; exact P|].
+    eapply frame_trans; [apply frame_passive; apply passive_t2_set|].
+    constructor; cbn; try reflexivity; try lia. eexists [_]; reflexivity.
+  - eapply frame_trans; [apply frame_passive; apply passive_t2_set|].
+    constructor; cbn; try reflexivity; try lia. exists []; reflexivity.
+Qed.
+
 Lemma cb_slot_step c a s :
-  (a < 8)%nat -> Inv s -> Tr s -> NW s ->
+  (a < 8)%nat -> Inv s -> Tr s -> NWw (cb_slot c (Z.of_nat a) s) ->
   let s' := cb_slot c (Z.of_nat a) s in
   let x := slot_at s a in
-  (NW s' -> Inv s' /\ Tr s') /\ frame s s' /\ delay s' = delay s /\ tcd s' = tcd s /\ now s' <= now s + OP /\
+  (NWw s' -> Inv s' /\ Tr s') /\ frame s s' /\ delay s' = delay s /\ tcd s' = tcd s /\ now s' <= now s + OP /\
   (forall i, (i < 8)%nat -> i <> a -> slot_at s' i = slot_at s i) /\
   evald (now s) (now s) s x (slot_at s' a) /\
   (exists add, outs s' = add ++ outs s /\
@@ -467,21 +583,26 @@ Lemma cb_slot_step c a s :
       (active x = true /\ s_chan (slot_at s' a) = 255 /\
        exists a1, add = finish_of x (now s) (rd s (now s)) :: a1 /\ Forall noghost a1))).
 Proof.
-  intros Ha I T N. cbv zeta. unfold cb_slot. rewrite Nat2Z.id. fold (slot_at s a).
-  set (x := slot_at s a).
+  intros Ha I T N0. cbv zeta.
+  assert (N : active (slot_at s a) = true -> NWw (fst (uptime_msec s))).
+  { intros A. eapply NW_frame; [|exact N0]. apply cb_slot_frame1. rewrite Nat2Z.id. exact A. }
+  clear N0. unfold cb_slot. rewrite Nat2Z.id. fold (slot_at s a).
+  set (x := slot_at s a) in *.
   assert (OPpos : 0 <= OP) by (destruct consts_ok; unfold OP; lia).
   destruct (active x) eqn:Hact.
   2:{ split; [auto|]. split; [apply frame_refl|]. split; [auto|]. split; [auto|]. split; [lia|]. split; [auto|].
       split; [left; auto|]. exists []; split; auto. }
   pose proof (i_clk _ I) as CK.
-  destruct (passive_uptime s CK N) as (P1 & U & N1 & O1).
+  specialize (N eq_refl).
+  destruct (passive_uptime s CK N) as (P1 & U & N1).
+  pose proof (NW_big _ N) as Big. rewrite (pa_cnt0 _ _ P1), (pa_tb _ _ P1), N1 in Big.
   destruct (uptime_msec s) as [s1 u] eqn:EU. cbn [fst snd] in *. subst u.
   assert (Hin : In x (slots s)) by (apply slot_at_in; rewrite (i_len _ I); auto).
   pose proof (i_ok _ I x Hin Hact) as SO. destruct SO as [Sch Sleft Sdur Sacct Slast Su0 St].
-  destruct CK as (Cu & Cl & C0 & Ct). destruct St as (T1 & T2 & T3).
+  destruct CK as (Cl & Cu & CL & C0 & Ct). destruct St as (T1 & T2 & T3).
   pose proof (rd_mono s _ _ T3) as Mono. rewrite <- Slast in Mono.
-  assert (RB : 0 <= rd s (now s) < 4294968) by (apply rd_bound; unfold NW in N; lia).
-  assert (RL : 0 <= s_last x) by (rewrite Slast; unfold rd; apply Z.div_pos; lia).
+  assert (RB : 0 <= rd s (now s) < 4611686018427387904) by (apply rd_bound; lia).
+  assert (RL : 0 <= s_last x) by (rewrite Slast; apply rd_bound; lia).
   rewrite u64_small by lia.
   set (u := rd s (now s)) in *.
   assert (I1 : Inv s1) by (eapply Inv_passive; eauto).
@@ -502,7 +623,7 @@ Proof.
     assert (I4 : Inv s4) by (eapply Inv_passive; eauto).
     assert (T4 : Tr s4) by (eapply Tr_passive; eauto).
     assert (Early : (g_dur x - 1) * 1000 < now s - g_t0 x).
-    { apply rd_diff_lo with (s := s). rewrite <- Su0. fold u. lia. }
+    { apply rd_diff_lo with (s := s); [lia|]. rewrite <- Su0. fold u. lia. }
     split; [|split; [|split; [|split; [|split; [|split; [|split]]]]]].
     + intros N'. split.
       * apply (Inv_set_slot (emit gf s4)); auto. apply Inv_emit; auto.
@@ -578,25 +699,6 @@ Proof.
       left. split; auto. left. unfold slot_at. cbn [slots set_slots]. rewrite nth_upd_eq by (rewrite S3, (i_len _ I); auto). auto.
 Qed.
 
-Lemma frame_uptime s : frame s (fst (uptime_msec s)).
-Proof.
-  unfold uptime_msec, uptime_usec. cbn [fst]. constructor; cbn; try reflexivity; try lia. exists []; auto.
-Qed.
-Lemma cb_slot_frame c a s : frame s (cb_slot c a s).
-Proof.
-  unfold cb_slot. destruct (active _); [|apply frame_refl].
-  pose proof (frame_uptime s) as F1. destruct (uptime_msec s) as [s1 u]. cbn [fst] in F1.
-  destruct (_ <=? _).
-  - pose proof (passive_chan_set_value c (s_gpio (nth (Z.to_nat a) (slots s) slot_free))
-        (if s_target (nth (Z.to_nat a) (slots s) slot_free) =? 0 then LO else HI) (s_chan (nth (Z.to_nat a) (slots s) slot_free)) s1) as P.
-    destruct (chan_set_value _ _ _ _ s1) as [s3 ok]. cbn [fst] in P.
-    eapply frame_trans; [exact F1|]. eapply frame_trans; [apply frame_passive; exact P|].
-    eapply frame_trans; [apply frame_passive; apply passive_t2_set|].
-    constructor; cbn; try reflexivity; try lia. eexists [_]; reflexivity.
-  - eapply frame_trans; [exact F1|]. eapply frame_trans; [apply frame_passive; apply passive_t2_set|].
-    constructor; cbn; try reflexivity; try lia. exists []; reflexivity.
-Qed.
-
 (* ---------- the whole loop ---------- *)
 Definition fin_from (s0 s : st) (k : nat) (o : out) : Prop :=
   exists i tl, (i < k)%nat /\ now s0 <= tl <= now s /\ o = finish_of (slot_at s0 i) tl (rd s0 tl) /\
@@ -619,12 +721,12 @@ Lemma rd_frame s0 s t : frame s0 s -> rd s t = rd s0 t.
 Proof. intros []. unfold rd. rewrite fr_cnt1, fr_tb0. reflexivity. Qed.
 
 Lemma loop_step c s0 s k :
-  (k < 8)%nat -> LoopInv s0 s k -> NW (cb_slot c (Z.of_nat k) s) -> LoopInv s0 (cb_slot c (Z.of_nat k) s) (S k).
+  (k < 8)%nat -> LoopInv s0 s k -> NWw (cb_slot c (Z.of_nat k) s) -> LoopInv s0 (cb_slot c (Z.of_nat k) s) (S k).
 Proof.
   intros Hk L N'. destruct L.
   pose proof (cb_slot_frame c (Z.of_nat k) s) as F.
-  assert (N : NW s) by (eapply NW_frame; eauto).
-  destruct (cb_slot_step c k s Hk lp_inv0 lp_tr0 N) as (A & B & C & D & E & G & H & (add & O1 & O2)).
+  assert (N : NWw s) by (eapply NW_frame; eauto).
+  destruct (cb_slot_step c k s Hk lp_inv0 lp_tr0 N') as (A & B & C & D & E & G & H & (add & O1 & O2)).
   destruct (A N') as [I' T'].
   set (s' := cb_slot c (Z.of_nat k) s) in *.
   assert (OPpos : 0 <= OP) by (destruct consts_ok; unfold OP; lia).
@@ -670,7 +772,7 @@ Proof. reflexivity. Qed.
 Lemma cd_loop_frame c s : frame s (cd_loop c s).
 Proof. rewrite cd_loop_unfold. repeat (eapply frame_trans; [|apply cb_slot_frame]). apply frame_refl. Qed.
 
-Lemma cd_loop_spec c s0 : Inv s0 -> Tr s0 -> NW (cd_loop c s0) -> LoopInv s0 (cd_loop c s0) 8.
+Lemma cd_loop_spec c s0 : Inv s0 -> Tr s0 -> NWw (cd_loop c s0) -> LoopInv s0 (cd_loop c s0) 8.
 Proof.
   intros I T N.
   assert (L0 : LoopInv s0 s0 0).
@@ -680,13 +782,13 @@ Proof.
   set (s3 := cb_slot c (Z.of_nat 2) s2) in *. set (s4 := cb_slot c (Z.of_nat 3) s3) in *.
   set (s5 := cb_slot c (Z.of_nat 4) s4) in *. set (s6 := cb_slot c (Z.of_nat 5) s5) in *.
   set (s7 := cb_slot c (Z.of_nat 6) s6) in *. set (s8 := cb_slot c (Z.of_nat 7) s7) in *.
-  assert (N7 : NW s7) by (eapply NW_frame; [apply cb_slot_frame|exact N]).
-  assert (N6 : NW s6) by (eapply NW_frame; [apply cb_slot_frame|exact N7]).
-  assert (N5 : NW s5) by (eapply NW_frame; [apply cb_slot_frame|exact N6]).
-  assert (N4 : NW s4) by (eapply NW_frame; [apply cb_slot_frame|exact N5]).
-  assert (N3 : NW s3) by (eapply NW_frame; [apply cb_slot_frame|exact N4]).
-  assert (N2 : NW s2) by (eapply NW_frame; [apply cb_slot_frame|exact N3]).
-  assert (N1 : NW s1) by (eapply NW_frame; [apply cb_slot_frame|exact N2]).
+  assert (N7 : NWw s7) by (eapply NW_frame; [apply cb_slot_frame|exact N]).
+  assert (N6 : NWw s6) by (eapply NW_frame; [apply cb_slot_frame|exact N7]).
+  assert (N5 : NWw s5) by (eapply NW_frame; [apply cb_slot_frame|exact N6]).
+  assert (N4 : NWw s4) by (eapply NW_frame; [apply cb_slot_frame|exact N5]).
+  assert (N3 : NWw s3) by (eapply NW_frame; [apply cb_slot_frame|exact N4]).
+  assert (N2 : NWw s2) by (eapply NW_frame; [apply cb_slot_frame|exact N3]).
+  assert (N1 : NWw s1) by (eapply NW_frame; [apply cb_slot_frame|exact N2]).
   pose proof (loop_step c s0 s0 0 ltac:(lia) L0 N1) as L1. fold s1 in L1.
   pose proof (loop_step c s0 s1 1 ltac:(lia) L1 N2) as L2. fold s2 in L2.
   pose proof (loop_step c s0 s2 2 ltac:(lia) L2 N3) as L3. fold s3 in L3.
@@ -790,7 +892,7 @@ Proof.
 Qed.
 
 Lemma cd_cb_spec c due s s' :
-  s' = cd_cb c due s -> Inv s -> Tr s -> NW s' ->
+  s' = cd_cb c due s -> Inv s -> Tr s -> NWw s' ->
   Good s' /\ frame s s' /\ now s' <= now s + 8 * OP /\
   (forall i, (i < 8)%nat -> evald (now s) (now s') s (slot_at s i) (slot_at s' i)) /\
   (exists add, outs s' = add ++ outs s /\ Forall (fun o => isghost o = true -> eval_ghost s s' due o) add /\
@@ -807,8 +909,8 @@ Proof.
   remember (emit (GEvalEnd (now s2)) s2) as s3 eqn:Es3.
   destruct (emit_facts _ _ _ Es3) as (Sl3 & Nb & O3 & D3 & C3 & F23 & R3 & A3).
   pose proof (frame_startstop s3) as F34. rewrite <- Es' in F34.
-  assert (N3 : NW s3) by (eapply NW_frame; eauto).
-  assert (N2 : NW s2) by (eapply NW_frame; eauto).
+  assert (N3 : NWw s3) by (eapply NW_frame; eauto).
+  assert (N2 : NWw s2) by (eapply NW_frame; eauto).
   assert (L : LoopInv s1 s2 8) by (subst s2; apply cd_loop_spec; auto).
   destruct L.
   assert (I3 : Inv s3) by (subst s3; apply Inv_emit; auto).
@@ -958,7 +1060,7 @@ Qed.
 (* first half: a free slot is taken and filled (state s3); second half: startstop or, repaired, the callback body *)
 Lemma countdown_arm c ms gpio ch target sender s s' :
   s' = countdown_arm_slot c ms gpio ch target sender s ->
-  Inv s -> Tr s -> 0 < ms < 4294967296 -> 0 <= ch < 255 -> (forall x, In x (slots s) -> s_chan x <> ch) -> NW s' ->
+  Inv s -> Tr s -> 0 < ms < 4294967296 -> 0 <= ch < 255 -> (forall x, In x (slots s) -> s_chan x <> ch) -> NWw s' ->
   (s' = s /\ forall x, In x (slots s) -> s_chan x <> 255) \/
   exists s3, s' = startstop s3 /\
     Inv s3 /\ Tr s3 /\ frame s s3 /\ now s3 = now s /\ tcd s3 = tcd s /\ delay s3 = delay s /\
@@ -982,14 +1084,17 @@ Proof.
   assert (P23 : passive s2 s3) by (subst s3; apply passive_t2_set).
   assert (F3' : frame s3 s') by (rewrite Es'; apply frame_startstop).
   assert (F03 : frame s s3) by (eapply frame_trans; [exact FU|]; eapply frame_trans; [exact F12|]; apply frame_passive; auto).
-  assert (N3 : NW s3) by (eapply NW_frame; eauto).
-  assert (N0 : NW s) by (eapply NW_frame; eauto).
+  assert (N3 : NWw s3) by (eapply NW_frame; eauto).
+  assert (N0 : NWw s) by (eapply NW_frame; eauto).
   pose proof (i_clk _ I) as CK.
-  destruct (passive_uptime s CK N0) as (P1 & U & N1 & O1). rewrite EU in *. cbn [fst snd] in *. subst u.
+  assert (N1' : NWw (fst (uptime_msec s))).
+  { rewrite EU. cbn [fst]. eapply NW_frame; [|exact N3]. eapply frame_trans; [exact F12|apply frame_passive; auto]. }
+  destruct (passive_uptime s CK N1') as (P1 & U & N1). rewrite EU in *. cbn [fst snd] in *. subst u.
+  destruct (pa_outs _ _ P1) as (a1 & O1 & Fa1).
   assert (I1 : Inv s1) by (eapply Inv_passive; eauto).
   assert (T1' : Tr s1) by (eapply Tr_passive; eauto).
   assert (Sl1 : slots s1 = slots s) by apply P1.
-  destruct CK as (Cu & Cl & C0 & Ct).
+  destruct CK as (Cl & Cu & CL & C0 & Ct).
   assert (Ay : active ynew = true).
   { unfold active, ynew; cbn. apply andb_true_iff. split; [apply negb_true_iff, Z.eqb_neq; lia|apply Z.ltb_lt; lia]. }
   assert (I2 : Inv s2).
@@ -1022,11 +1127,12 @@ Proof.
   - split.
     + intros y Hy Ay'. rewrite (pa_slots _ _ P23) in Hy. subst s2. cbn [slots set_slots] in Hy.
       apply In_upd in Hy. destruct Hy as [->|Hy]; [right; cbn; auto|left; rewrite <- Sl1; auto].
-    + destruct (pa_outs _ _ P23) as (a3 & E3 & F3). exists (a3 ++ [GArm (now s) ch ms target]). split.
+    + destruct (pa_outs _ _ P23) as (a3 & E3 & F3). exists (a3 ++ GArm (now s) ch ms target :: a1). split.
       * rewrite E3. subst s2. cbn [outs set_slots emit set_outs]. rewrite O1, <- app_assoc. reflexivity.
       * split; [|apply in_or_app; right; left; reflexivity].
-        intros o Ho. apply in_app_or in Ho. destruct Ho as [Ho|[<-|[]]]; [|exact Logic.I].
-        rewrite Forall_forall in F3. apply F3 in Ho. destruct o; cbn in *; auto.
+        intros o Ho. apply in_app_or in Ho. destruct Ho as [Ho|[<-|Ho]]; [|exact Logic.I|].
+        -- rewrite Forall_forall in F3. apply F3 in Ho. destruct o; cbn in *; auto.
+        -- rewrite Forall_forall in Fa1. apply Fa1 in Ho. destruct o; cbn in *; auto.
 Qed.
 
 Lemma arm_slot_frame c ms gpio ch tg sd s : frame s (countdown_arm_slot c ms gpio ch tg sd s).
@@ -1039,7 +1145,7 @@ Proof.
 Qed.
 Lemma arm_slot_spec c ms gpio ch target sender s s' :
   s' = countdown_arm_slot c ms gpio ch target sender s ->
-  Good s -> 0 < ms < 4294967296 -> 0 <= ch < 255 -> (forall x, In x (slots s) -> s_chan x <> ch) -> NW s' ->
+  Good s -> 0 < ms < 4294967296 -> 0 <= ch < 255 -> (forall x, In x (slots s) -> s_chan x <> ch) -> NWw s' ->
   Good s' /\ frame s s' /\ now s' = now s /\ evo (fun k => k = ch) s s'.
 Proof.
   intros Es' [I T TT] Hms Hch NoCh N.
@@ -1068,14 +1174,14 @@ Proof.
 Qed.
 Lemma countdown_spec e c ms gpio ch target sender s s' :
   s' = countdown e c ms gpio ch target sender s ->
-  Good s -> 0 < ms < 4294967296 -> 0 <= ch < 255 -> (forall x, In x (slots s) -> s_chan x <> ch) -> NW s' ->
+  Good s -> 0 < ms < 4294967296 -> 0 <= ch < 255 -> (forall x, In x (slots s) -> s_chan x <> ch) -> NWw s' ->
   Good s' /\ frame s s' /\ now s' <= now s + 8 * OP /\ evo (fun k => k = ch) s s'.
 Proof.
   intros Es' G Hms Hch NoCh N. unfold countdown in Es'.
   assert (OPpos : 0 <= OP) by (destruct consts_ok; unfold OP; lia).
   destruct e.
   - remember (cd_cb c (if t_on (tcd s) then t_due (tcd s) else now s) s) as s0 eqn:Es0.
-    assert (N0 : NW s0) by (eapply NW_frame; [|exact N]; rewrite Es'; apply arm_slot_frame).
+    assert (N0 : NWw s0) by (eapply NW_frame; [|exact N]; rewrite Es'; apply arm_slot_frame).
     destruct (cd_cb_spec c _ s s0 Es0 (g_inv _ G) (g_tr _ G) N0) as (G0 & F0 & Nw0 & EV & _ & _).
     pose proof (evald_nochan s s0 ch Hch (g_inv _ G) (i_len _ (g_inv _ G0)) EV NoCh) as NoCh0.
     destruct (arm_slot_spec c ms gpio ch target sender s0 s' Es' G0 Hms Hch NoCh0 N) as (G' & F' & Nw' & E').
@@ -1106,7 +1212,7 @@ Qed.
 
 Lemma set_duration_timer_spec e c ch newv dur sender s s' :
   s' = set_duration_timer e c ch newv dur sender s ->
-  wf_cfg c -> Good s -> 0 <= ch < 8 -> dur < 4294967296 -> NW s' ->
+  wf_cfg c -> Good s -> 0 <= ch < 8 -> dur < 4294967296 -> NWw s' ->
   Good s' /\ frame s s' /\ now s' <= now s + 8 * OP /\ evo (fun k => k = ch) s s' /\ fresh ch (now s) s'.
 Proof.
   intros Es' W G Hch Hdur N. unfold set_duration_timer in Es'.
@@ -1140,7 +1246,7 @@ Proof.
             then countdown e c (u32 dur1) (r_gpio r) ch (if newv =? 0 then 1 else 0) sender s1 else s1) as s2 eqn:Es2.
   assert (P23 : passive s2 s') by (subst s'; destruct (hasf f _); [apply passive_ext_changed|apply passive_refl]).
   assert (N23 : now s' = now s2) by (subst s'; destruct (hasf f _); [apply now_ext_changed|reflexivity]).
-  assert (N2 : NW s2) by (eapply NW_passive; eauto).
+  assert (N2 : NWw s2) by (eapply NW_passive; eauto).
   assert (H2 : Good s2 /\ frame s1 s2 /\ now s2 <= now s1 + 8 * OP /\ evo (fun k => k = ch) s1 s2).
   { destruct ((newv =? 1) || hasf f CHFLAG_COUNTDOWN).
     - rewrite u32_small in Es2 by lia. eapply countdown_spec; eauto; lia.
@@ -1167,7 +1273,7 @@ Proof. intros P F y Hy. rewrite (pa_slots _ _ P) in Hy. auto. Qed.
 
 Lemma channel_set_value_spec e c ch v dur sender s s' :
   s' = channel_set_value e c ch v dur sender s ->
-  wf_cfg c -> Good s -> NW s' ->
+  wf_cfg c -> Good s -> NWw s' ->
   Good s' /\ frame s s' /\ now s' <= now s + 9 * OP /\ evo (fun k => k = ch) s s' /\
   (forall r, In r (c_relays c) -> r_chan r = ch -> fresh ch (now s) s').
 Proof.
@@ -1188,7 +1294,7 @@ Proof.
   assert (P2' : passive s2 s') by (subst s'; apply passive_set_result).
   assert (Nw : now s' = now s2) by (subst s'; apply now_set_result).
   pose proof (passive_trans _ _ _ P12 P2') as P1'.
-  assert (N1 : NW s1) by (eapply NW_passive; eauto).
+  assert (N1 : NWw s1) by (eapply NW_passive; eauto).
   pose proof (s32_range dur).
   destruct (set_duration_timer_spec e c ch v (s32 dur) sender s s1 Es1 W G Hc ltac:(lia) N1) as (G1 & F1 & Nw1 & E1 & Fr1).
   split; [eapply Good_passive; eauto|]. split; [eapply frame_trans; [exact F1|apply frame_passive; auto]|].
@@ -1210,7 +1316,7 @@ Qed.
 
 Lemma relay_switch_spec e c port hi s s' :
   s' = relay_switch e c port hi s ->
-  wf_cfg c -> Good s -> NW s' ->
+  wf_cfg c -> Good s -> NWw s' ->
   let ch := last_chan (c_relays c) port (-1) in
   Good s' /\ frame s s' /\ now s' <= now s + 9 * OP /\ evo (fun k => k = ch) s s' /\ (0 <= ch -> fresh ch (now s) s').
 Proof.
@@ -1235,7 +1341,7 @@ Proof.
   assert (P2' : passive s2 s') by (subst s'; apply passive_value_changed).
   assert (Nw : now s' = now s2) by (subst s'; apply now_value_changed).
   pose proof (passive_trans _ _ _ P12 P2') as P1'.
-  assert (N1 : NW s1) by (eapply NW_passive; eauto).
+  assert (N1 : NWw s1) by (eapply NW_passive; eauto).
   destruct (set_duration_timer_spec e c ch hi2 0 0 s0 s1 Es1 W (Good_passive _ _ P0 G) Hc ltac:(lia) N1) as (G1 & F1 & Nw1 & E1 & Fr1).
   split; [eapply Good_passive; eauto|].
   split; [eapply frame_trans; [apply frame_passive; exact P0|]; eapply frame_trans; [exact F1|apply frame_passive; auto]|].
@@ -1285,7 +1391,7 @@ Proof.
 Qed.
 
 Lemma fire_spec e c i s s' :
-  s' = fire e c i s -> wf_cfg c -> Good s -> t_on (get_t i s) = true -> NW s' ->
+  s' = fire e c i s -> wf_cfg c -> Good s -> t_on (get_t i s) = true -> NWw s' ->
   Good s' /\ frame s s' /\ evo (fun _ => False) s s'.
 Proof.
   intros Es' W G Hon N. unfold fire in Es'.
@@ -1333,13 +1439,8 @@ Proof.
   - assert (P : passive s3 s') by (subst s'; apply passive_do_save).
     split; [eapply Good_passive; eauto|]. split; [eapply frame_trans; [exact F3|apply frame_passive; auto]|].
     apply (evo_trans _ s s3 s'); auto. apply evo_passive; auto.
-  - assert (F' : frame s3 s').
-    { subst s'. unfold uptime_usec. cbn [fst]. constructor; cbn; try reflexivity; try lia. exists []; auto. }
-    assert (N3 : NW s3) by (eapply NW_frame; eauto).
-    assert (P : passive s3 s').
-    { pose proof (uptime_usec_spec s3 (i_clk _ (g_inv _ G3)) N3) as U. rewrite U in Es'. cbn [fst] in Es'. subst s'.
-      destruct (i_clk _ (g_inv _ G3)) as (A & B & C & D). unfold NW in N3.
-      constructor; cbn; try reflexivity; try lia. - intros _. unfold ClockOK; cbn. lia. - exists []; auto. }
+  - assert (P : passive s3 s') by (rewrite Es'; apply passive_uptime_usec; [apply (i_clk _ (g_inv _ G3))|rewrite <- Es'; exact N]).
+    assert (F' : frame s3 s') by (apply frame_passive; exact P).
     split; [eapply Good_passive; eauto|]. split; [eapply frame_trans; eauto|].
     apply (evo_trans _ s s3 s'); auto. apply evo_passive; auto.
 Qed.
@@ -1358,7 +1459,7 @@ Proof.
   eapply frame_trans; [exact F3|]. unfold run_cb. destruct i.
   - apply cd_cb_frame.
   - apply frame_passive, passive_do_save.
-  - unfold uptime_usec. cbn [fst]. constructor; cbn; try reflexivity; try lia. exists []; auto.
+  - apply frame_uptime_usec.
 Qed.
 Lemma adv_frame e c fuel : forall end_ s, frame s (adv e c fuel end_ s).
 Proof.
@@ -1367,7 +1468,7 @@ Proof.
   - destruct (pick s end_); [|apply frame_refl]. eapply frame_trans; [apply fire_frame|apply IH].
 Qed.
 Lemma adv_spec e c fuel : forall end_ s s',
-  s' = adv e c fuel end_ s -> wf_cfg c -> Good s -> NW s' ->
+  s' = adv e c fuel end_ s -> wf_cfg c -> Good s -> NWw s' ->
   Good s' /\ evo (fun _ => False) s s'.
 Proof.
   induction fuel as [|k IH]; intros end_ s s' Es' W G N; cbn [adv] in Es'.
@@ -1377,7 +1478,7 @@ Proof.
     2:{ subst s'. split; auto. apply evo_refl. }
     apply pick_some in EP. unfold due_ok in EP. apply andb_true_iff in EP. destruct EP as [Hon _].
     remember (fire e c i s) as s1 eqn:Es1.
-    assert (N1 : NW s1) by (eapply NW_frame; [|exact N]; subst s'; apply adv_frame).
+    assert (N1 : NWw s1) by (eapply NW_frame; [|exact N]; subst s'; apply adv_frame).
     destruct (fire_spec e c i s s1 Es1 W G Hon N1) as (G1 & F1 & E1).
     destruct (IH end_ s1 s' Es' W G1 N) as (G' & E').
     split; auto. apply (evo_trans _ s s1 s'); auto. apply F1.
@@ -1390,14 +1491,14 @@ Proof.
   eapply frame_trans; [exact F|]. constructor; cbn; try reflexivity; try lia. exists []; auto.
 Qed.
 Lemma advance_spec e c dt s s' :
-  s' = advance e c dt s -> wf_cfg c -> Good s -> NW s' ->
+  s' = advance e c dt s -> wf_cfg c -> Good s -> NWw s' ->
   Good s' /\ evo (fun _ => False) s s' /\ now s + dt <= now s'.
 Proof.
   intros Es' W G N. unfold advance in Es'.
   remember (adv e c (Z.to_nat (dt / 20000 + 64)) (now s + dt) s) as s1 eqn:Es1.
   assert (F1 : frame s s1) by (subst s1; apply adv_frame).
   destruct (now s1 <? now s + dt) eqn:E; [apply Z.ltb_lt in E|apply Z.ltb_ge in E].
-  - assert (N1 : NW s1). { subst s'. unfold NW in *. cbn in N. lia. }
+  - assert (N1 : NWw s1) by (apply (NW_ext s1 s'); [subst s'; reflexivity|subst s'; reflexivity|subst s'; cbn; lia|exists []; subst s'; reflexivity|exact N]).
     destruct (adv_spec e c _ _ s s1 Es1 W G N1) as (G1 & E1).
     split; [|split].
     + subst s'. eapply Good_tick; [..|exact G1]; try reflexivity; cbn; try lia. split; reflexivity.
@@ -1463,7 +1564,7 @@ Lemma free_inactive x : In x (repeat slot_free 8) -> active x = false /\ s_chan 
 Proof. intros H. apply repeat_spec in H. subst. split; reflexivity. Qed.
 
 Lemma restore_relay_spec e c s s' a r :
-  s' = restore_relay e c s (a, r) -> wf_cfg c -> In r (c_relays c) -> Good s -> NW s' ->
+  s' = restore_relay e c s (a, r) -> wf_cfg c -> In r (c_relays c) -> Good s -> NWw s' ->
   Good s' /\ evo (fun _ => True) s s'.
 Proof.
   intros Es' W Hr G N. unfold restore_relay in Es'. pose proof (wf_chan _ W r Hr) as Hc.
@@ -1473,7 +1574,7 @@ Proof.
     rewrite Lt in Es'.
     remember (set_duration_timer e c (r_chan r) (s8 (getz (ram_relay s) a)) (s32 (getz (ram_t2 s) (r_chan r))) 0 s) as s1 eqn:Es1.
     assert (P : passive s1 s') by (subst s'; apply passive_relay_hi).
-    assert (N1 : NW s1) by (eapply NW_passive; eauto).
+    assert (N1 : NWw s1) by (eapply NW_passive; eauto).
     pose proof (s32_range (getz (ram_t2 s) (r_chan r))).
     destruct (set_duration_timer_spec e c _ _ _ _ s s1 Es1 W G Hc ltac:(lia) N1) as (G1 & F1 & Nw1 & E1 & _).
     split; [eapply Good_passive; eauto|].
@@ -1483,13 +1584,13 @@ Proof.
     + subst s'. split; auto. apply evo_refl.
 Qed.
 Lemma fold_restore_spec e c : forall l s s',
-  s' = fold_left (restore_relay e c) l s -> wf_cfg c -> (forall ar, In ar l -> In (snd ar) (c_relays c)) -> Good s -> NW s' ->
+  s' = fold_left (restore_relay e c) l s -> wf_cfg c -> (forall ar, In ar l -> In (snd ar) (c_relays c)) -> Good s -> NWw s' ->
   Good s' /\ evo (fun _ => True) s s'.
 Proof.
   induction l as [|[a r] l IH]; intros s s' Es' W Hl G N; cbn [fold_left] in Es'.
   - subst s'. split; auto. apply evo_refl.
   - remember (restore_relay e c s (a, r)) as s1 eqn:Es1.
-    assert (N1 : NW s1) by (eapply NW_frame; [|exact N]; subst s'; apply fold_restore_frame).
+    assert (N1 : NWw s1) by (eapply NW_frame; [|exact N]; subst s'; apply fold_restore_frame).
     destruct (restore_relay_spec e c s s1 a r Es1 W (Hl (a, r) (or_introl eq_refl)) G N1) as (G1 & E1).
     destruct (IH s1 s' Es' W (fun ar H => Hl ar (or_intror H)) G1 N) as (G' & E').
     split; auto. apply (evo_trans _ s s1 s'); auto. subst s1. apply restore_relay_frame.
@@ -1507,7 +1608,7 @@ Lemma Tr_TrO s : Tr s -> TrO s.
 Proof. intros []. constructor; auto. intros * H. destruct (tr_fin0 _ _ _ _ _ _ _ H) as (A & B & C & D & _). auto. Qed.
 
 Lemma boot_spec e c s s' :
-  s' = boot e c s -> wf_cfg c -> TrO s -> 0 <= cnt0 s -> tb s <= now s -> NW s' ->
+  s' = boot e c s -> wf_cfg c -> TrO s -> 0 <= cnt0 s -> tb s <= now s -> NWw s' ->
   Good s' /\ cnt0 s' = cnt0 s /\ tb s' = tb s /\ now s <= now s' /\ (exists add, outs s' = add ++ outs s) /\
   (forall y, In y (slots s') -> active y = true -> now s <= g_t0 y).
 Proof.
@@ -1536,16 +1637,15 @@ Proof.
     - apply TO.
     - intros x Hx Ax. rewrite a1 in Hx. destruct (free_inactive x Hx). congruence. }
   remember (fst (uptime_usec s6)) as s7 eqn:Es7.
-  assert (F67 : frame s6 s7) by (subst s7; unfold uptime_usec; cbn [fst]; constructor; cbn; try reflexivity; try lia; exists []; auto).
+  assert (F67 : frame s6 s7) by (subst s7; apply frame_uptime_usec).
   assert (F7' : frame s7 s') by (subst s'; constructor; cbn; try reflexivity; try lia; exists []; auto).
   pose proof (frame_trans _ _ _ F67 F7') as F6'.
-  assert (N6 : NW s6) by (eapply NW_frame; eauto).
+  assert (N6 : NWw s6) by (eapply NW_frame; eauto).
   destruct (fold_restore_spec e c _ s5 s6 Es6 W (enum_snd _ 0) G5 N6) as (G6 & E6).
   assert (F56 : frame s5 s6) by (subst s6; apply fold_restore_frame).
   assert (P67 : passive s6 s7).
-  { pose proof (uptime_usec_spec s6 (i_clk _ (g_inv _ G6)) N6) as U. rewrite U in Es7. cbn [fst] in Es7. subst s7.
-    destruct (i_clk _ (g_inv _ G6)) as (A & B & C & D). unfold NW in N6.
-    constructor; cbn; try reflexivity; try lia. - intros _. unfold ClockOK; cbn. lia. - exists []; auto. }
+  { assert (N7 : NWw s7) by (eapply NW_frame; [exact F7'|exact N]).
+    rewrite Es7. apply passive_uptime_usec; [apply (i_clk _ (g_inv _ G6))|rewrite <- Es7; exact N7]. }
   assert (G7 : Good s7) by (eapply Good_passive; eauto).
   assert (S67 : slots s7 = slots s6) by apply P67.
   assert (G' : Good s').
@@ -1589,14 +1689,14 @@ Qed.
 Definition wf_ev (x : ev) : Prop := match x with EAdv dt => 0 <= dt | _ => True end.
 
 Lemma step_spec e c s x s' :
-  s' = step e c s x -> wf_cfg c -> wf_ev x -> Good s -> NW s' ->
+  s' = step e c s x -> wf_cfg c -> wf_ev x -> Good s -> NWw s' ->
   Good s' /\ now s <= now s' /\ evo (ev_chan c x) s s' /\ (exists add, outs s' = add ++ outs s) /\
   (is_crash x = false -> cnt0 s' = cnt0 s /\ tb s' = tb s).
 Proof.
   intros Es' W Wx G N. unfold step in Es'.
   set (s1 := match x with ESet _ _ _ _ => _ | _ => _ end) in *.
   assert (P : passive s1 s') by (subst s'; apply passive_emit; exact Logic.I).
-  assert (N1 : NW s1) by (eapply NW_passive; eauto).
+  assert (N1 : NWw s1) by (eapply NW_passive; eauto).
   assert (OPpos : 0 <= OP) by (destruct consts_ok; unfold OP; lia).
   assert (K : Good s1 /\ now s <= now s1 /\ evo (ev_chan c x) s s1 /\ (exists add, outs s1 = add ++ outs s) /\
               (is_crash x = false -> cnt0 s1 = cnt0 s /\ tb s1 = tb s)).
@@ -1639,23 +1739,23 @@ Proof.
     + intros NC. destruct (C1 NC). rewrite (pa_cnt0 _ _ P), (pa_tb _ _ P). auto.
 Qed.
 
-Definition NWrun (e : bool) (c : cfg) (s : st) (evs : list ev) : Prop := forall k, NW (run_from e c s (firstn k evs)).
-Lemma NWrun_cons e c s x evs : NWrun e c s (x :: evs) -> NW (step e c s x) /\ NWrun e c (step e c s x) evs.
+Definition NWwrun (e : bool) (c : cfg) (s : st) (evs : list ev) : Prop := forall k, NWw (run_from e c s (firstn k evs)).
+Lemma NWwrun_cons e c s x evs : NWwrun e c s (x :: evs) -> NWw (step e c s x) /\ NWwrun e c (step e c s x) evs.
 Proof. intros H. split. - apply (H 1%nat). - intros k. apply (H (S k)). Qed.
-Lemma NWrun_nil e c s : NWrun e c s [] -> NW s.
+Lemma NWwrun_nil e c s : NWwrun e c s [] -> NWw s.
 Proof. intros H. apply (H 0%nat). Qed.
 
-Lemma run_good e c : forall evs s, wf_cfg c -> Forall wf_ev evs -> Good s -> NWrun e c s evs -> Good (run_from e c s evs).
+Lemma run_good e c : forall evs s, wf_cfg c -> Forall wf_ev evs -> Good s -> NWwrun e c s evs -> Good (run_from e c s evs).
 Proof.
   induction evs as [|x evs IH]; intros s W Wx G N; cbn; auto.
-  apply NWrun_cons in N. destruct N as [N1 N2]. inversion Wx; subst.
+  apply NWwrun_cons in N. destruct N as [N1 N2]. inversion Wx; subst.
   destruct (step_spec e c s x _ eq_refl W H1 G N1) as (G1 & _). apply IH; auto.
 Qed.
-Lemma start_good e c : wf_cfg c -> NW (start e c) -> Good (start e c).
+Lemma start_good e c : wf_cfg c -> NWw (start e c) -> Good (start e c).
 Proof.
   intros W N. unfold start in *. set (s := boot e c (init c)) in *.
   assert (P : passive s (emit (st_line c s) s)) by (apply passive_emit; exact Logic.I).
-  assert (N1 : NW s) by (eapply NW_passive; eauto).
+  assert (N1 : NWw s) by (eapply NW_passive; eauto).
   assert (TO : TrO (init c)) by (constructor; cbn; [intros; contradiction|constructor]).
   assert (C0 : 0 <= cnt0 (init c)) by (cbn; apply (wf_boot _ W)).
   assert (Ct : tb (init c) <= now (init c)) by (cbn; lia).
@@ -1671,27 +1771,27 @@ Hypothesis W : wf_cfg c.
 Variable evs : list ev.
 Hypothesis Wev : Forall wf_ev evs.
 (* H_nowrap: the 32-bit microsecond counter does not wrap inside the history (after every prefix) *)
-Hypothesis H_nowrap : NWrun e c (start e c) evs.
+Hypothesis H_nowrap : NWwrun e c (start e c) evs.
 Let final := run_from e c (start e c) evs.
 
 Lemma final_good : Good final.
 Proof. apply run_good; auto. apply start_good; auto. exact (H_nowrap 0%nat). Qed.
 
 (* C07_armed_period_bound *)
-Theorem armed_period_bound_thm :
+Theorem armed_period_bound_w :
   forall x, In x (slots final) -> active x = true ->
     t_on (tcd final) = true /\ CD_MIN <= delay final <= clampd (s_left x) /\ t_per (tcd final) = delay final * 1000.
 Proof. exact (g_t1 _ final_good). Qed.
 
 (* C07_never_early / at most once *)
-Theorem never_early_thm :
+Theorem never_early_w :
   forall tcb ch tg t0 dur u0 u, In (GFinish tcb ch tg t0 dur u0 u) (run e c evs) ->
     (dur - 1) * 1000 < tcb - t0 /\ In (GArm t0 ch dur tg) (run e c evs).
 Proof.
   intros * H. unfold run in *. apply in_rev in H. fold final in H.
   destruct (tr_fin _ (g_tr _ final_good) _ _ _ _ _ _ _ H) as (A & B & C & D & _). split; auto. apply -> in_rev. exact D.
 Qed.
-Theorem at_most_once_thm : NoDup (fins (outs final)).
+Theorem at_most_once_w : NoDup (fins (outs final)).
 Proof. exact (tr_uniq _ (g_tr _ final_good)). Qed.
 End Histories.
 
@@ -1776,7 +1876,7 @@ Proof. intros H due t Hin. apply H. apply in_or_app; auto. Qed.
 Lemma Slack_frame S s s' : frame s s' -> Slack S (outs s') -> Slack S (outs s).
 Proof. intros [] H. destruct fr_outs0 as (a & E). rewrite E in H. eapply Slack_app; eauto. Qed.
 
-Definition OTB (S : Z) : Z := CD_MIN * 1000 + S + 2 * BQ.
+Definition OTB (S : Z) : Z := CD_MIN * 1000 + S + 2 * BQ + WB.
 Record J (e : bool) (S : Z) (s : st) : Prop := {
   j_due : t_on (tcd s) = true -> t_due (tcd s) <= now s + t_per (tcd s);
   j_q : e = true -> forall x, In x (slots s) -> active x = true -> t_due (tcd s) <= g_tl x + BQ + t_per (tcd s);
@@ -1816,7 +1916,7 @@ Proof.
 Qed.
 
 Lemma cd_cb_J e S c due s s' :
-  s' = cd_cb c due s -> Inv s -> Tr s -> NW s' -> Slack S (outs s') -> 0 <= S ->
+  s' = cd_cb c due s -> Inv s -> Tr s -> NWw s' -> Slack S (outs s') -> 0 <= S ->
   (t_on (tcd s) = true -> t_due (tcd s) <= now s + t_per (tcd s)) ->
   (e = true -> forall x, In x (slots s) -> active x = true ->
        g_tl x = now s \/ due <= g_tl x + BQ + clampd (s_left x) * 1000) ->
@@ -1853,8 +1953,9 @@ Proof.
     set (x := slot_at s i) in *.
     assert (Hx : In x (slots s)) by (apply slot_at_in; rewrite (i_len _ I); auto).
     destruct (i_ok _ I x Hx Ai) as [Sch Sleft Sdur Sacct Slast Su0 (T1' & T2' & T3')].
-    assert (Gap : g_tl x - g_t0 x < (g_dur x - s_left x + 1) * 1000).
-    { apply rd_diff_hi with (s := s). rewrite <- Slast, <- Su0. lia. }
+    assert (Gap : g_tl x - g_t0 x < (g_dur x - s_left x + 1) * 1000 + WB).
+    { destruct (i_clk _ I) as (_ & _ & _ & Cc & _). destruct N as [Nb _]. destruct F' as [Fc Ft Fn _].
+      apply rd_diff_hi with (s := s); [lia|lia|rewrite Fc, Ft in Nb; lia|]. rewrite <- Slast, <- Su0. lia. }
     assert (Hst : now s <= due + S).
     { apply SL. rewrite O1. apply in_or_app. left. exact O3. }
     pose proof (period_arith (g_dur x) (s_left x) ltac:(lia)) as PA.
@@ -1871,7 +1972,7 @@ Proof. intros E F. exists add. split; auto. intros tcb ch tg t0 dur u0 u H. appl
 Lemma arm_slot_J e S c ms gpio ch target sender s s' :
   s' = countdown_arm_slot c ms gpio ch target sender s ->
   Good s -> J e S s -> (e = true -> forall y, In y (slots s) -> active y = true -> now s <= g_tl y + BQ) ->
-  0 < ms < 4294967296 -> 0 <= ch < 255 -> (forall x, In x (slots s) -> s_chan x <> ch) -> NW s' ->
+  0 < ms < 4294967296 -> 0 <= ch < 255 -> (forall x, In x (slots s) -> s_chan x <> ch) -> NWw s' ->
   J e S s' /\ finsrc s s'.
 Proof.
   intros Es' [I T TT] [Jd Jq Jo] Fr Hms Hch NoCh N.
@@ -1900,14 +2001,14 @@ Qed.
 Lemma countdown_J e S c ms gpio ch target sender s s' :
   s' = countdown e c ms gpio ch target sender s ->
   Good s -> J e S s -> 0 < ms < 4294967296 -> 0 <= ch < 255 -> (forall x, In x (slots s) -> s_chan x <> ch) ->
-  NW s' -> Slack S (outs s') -> 0 <= S ->
+  NWw s' -> Slack S (outs s') -> 0 <= S ->
   J e S s' /\ finsrc s s'.
 Proof.
   intros Es' G Jj Hms Hch NoCh N SL HS. unfold countdown in Es'.
   destruct e.
   - remember (cd_cb c (if t_on (tcd s) then t_due (tcd s) else now s) s) as s0 eqn:Es0.
     assert (F0' : frame s0 s') by (rewrite Es'; apply arm_slot_frame).
-    assert (N0 : NW s0) by (eapply NW_frame; eauto).
+    assert (N0 : NWw s0) by (eapply NW_frame; eauto).
     assert (SL0 : Slack S (outs s0)) by (eapply Slack_frame; eauto).
     destruct (cd_cb_spec c _ s s0 Es0 (g_inv _ G) (g_tr _ G) N0) as (G0 & F0 & Nw0 & EV & _ & _).
     pose proof (evald_nochan s s0 ch Hch (g_inv _ G) (i_len _ (g_inv _ G0)) EV NoCh) as NoCh0.
@@ -1947,7 +2048,7 @@ Qed.
 
 Lemma sdt_J e S c ch newv dur sender s s' :
   s' = set_duration_timer e c ch newv dur sender s ->
-  wf_cfg c -> Good s -> J e S s -> 0 <= ch < 8 -> dur < 4294967296 -> NW s' -> Slack S (outs s') -> 0 <= S ->
+  wf_cfg c -> Good s -> J e S s -> 0 <= ch < 8 -> dur < 4294967296 -> NWw s' -> Slack S (outs s') -> 0 <= S ->
   J e S s' /\ finsrc s s'.
 Proof.
   intros Es' W G Jj Hch Hdur N SL HS. unfold set_duration_timer in Es'.
@@ -1975,7 +2076,7 @@ Proof.
   remember (if (newv =? 1) || hasf f CHFLAG_COUNTDOWN
             then countdown e c (u32 dur1) (r_gpio r) ch (if newv =? 0 then 1 else 0) sender s1 else s1) as s2 eqn:Es2.
   assert (P23 : passive s2 s') by (subst s'; destruct (hasf f _); [apply passive_ext_changed|apply passive_refl]).
-  assert (N2 : NW s2) by (eapply NW_passive; eauto).
+  assert (N2 : NWw s2) by (eapply NW_passive; eauto).
   assert (SL2 : Slack S (outs s2)) by (eapply Slack_frame; [apply frame_passive; exact P23|auto]).
   assert (H2 : Good s2 /\ now s1 <= now s2 /\ evo (fun k => k = ch) s1 s2 /\ J e S s2 /\ finsrc s1 s2).
   { destruct ((newv =? 1) || hasf f CHFLAG_COUNTDOWN).
@@ -1993,7 +2094,7 @@ Qed.
 
 Lemma csv_J e S c ch v dur sender s s' :
   s' = channel_set_value e c ch v dur sender s ->
-  wf_cfg c -> Good s -> J e S s -> NW s' -> Slack S (outs s') -> 0 <= S ->
+  wf_cfg c -> Good s -> J e S s -> NWw s' -> Slack S (outs s') -> 0 <= S ->
   J e S s' /\ finsrc s s'.
 Proof.
   intros Es' W G Jj N SL HS. unfold channel_set_value in Es'.
@@ -2005,7 +2106,7 @@ Proof.
   destruct (chan_set_value c (r_gpio r) v ch s1) as [s2 ok]. cbn [fst] in *.
   assert (P2' : passive s2 s') by (subst s'; apply passive_set_result).
   pose proof (passive_trans _ _ _ P12 P2') as P1'.
-  assert (N1 : NW s1) by (eapply NW_passive; eauto).
+  assert (N1 : NWw s1) by (eapply NW_passive; eauto).
   assert (SL1 : Slack S (outs s1)) by (eapply Slack_frame; [apply frame_passive; exact P1'|auto]).
   pose proof (s32_range dur).
   destruct (set_duration_timer_spec e c ch v (s32 dur) sender s s1 Es1 W G Hc ltac:(lia) N1) as (G1 & F1 & _ & E1 & _).
@@ -2016,7 +2117,7 @@ Qed.
 
 Lemma rsw_J e S c port hi s s' :
   s' = relay_switch e c port hi s ->
-  wf_cfg c -> Good s -> J e S s -> NW s' -> Slack S (outs s') -> 0 <= S ->
+  wf_cfg c -> Good s -> J e S s -> NWw s' -> Slack S (outs s') -> 0 <= S ->
   J e S s' /\ finsrc s s'.
 Proof.
   intros Es' W G Jj N SL HS. unfold relay_switch in Es'. set (ch := last_chan (c_relays c) port (-1)) in *.
@@ -2035,7 +2136,7 @@ Proof.
   assert (P12 : passive s1 s2) by (subst s2; apply passive_relay_hi).
   assert (P2' : passive s2 s') by (subst s'; apply passive_value_changed).
   pose proof (passive_trans _ _ _ P12 P2') as P1'.
-  assert (N1 : NW s1) by (eapply NW_passive; eauto).
+  assert (N1 : NWw s1) by (eapply NW_passive; eauto).
   assert (SL1 : Slack S (outs s1)) by (eapply Slack_frame; [apply frame_passive; exact P1'|auto]).
   pose proof (Good_passive _ _ P0 G) as G0.
   destruct (JF_passive e S _ _ P0 G Jj) as [J0 FS0].
@@ -2054,7 +2155,7 @@ Proof.
 Qed.
 
 Lemma fire_J e S c i s s' :
-  s' = fire e c i s -> wf_cfg c -> Good s -> J e S s -> t_on (get_t i s) = true -> NW s' -> Slack S (outs s') -> 0 <= S ->
+  s' = fire e c i s -> wf_cfg c -> Good s -> J e S s -> t_on (get_t i s) = true -> NWw s' -> Slack S (outs s') -> 0 <= S ->
   J e S s' /\ finsrc s s'.
 Proof.
   intros Es' W G Jj Hon N SL HS. unfold fire in Es'.
@@ -2111,19 +2212,17 @@ Proof.
   - assert (J3 : J e S s3).
     { constructor; rewrite ?c10, ?c1, ?c7; auto. intros On. specialize (Jd On). lia. }
     assert (F' : frame s3 s').
-    { subst s'. unfold uptime_usec. cbn [fst]. constructor; cbn; try reflexivity; try lia. exists []; auto. }
-    assert (N3 : NW s3) by (eapply NW_frame; eauto).
+    { subst s'. apply frame_uptime_usec. }
+    assert (N3 : NWw s3) by (eapply NW_frame; eauto).
     assert (P : passive s3 s').
-    { pose proof (uptime_usec_spec s3 (i_clk _ (g_inv _ G3)) N3) as U. rewrite U in Es'. cbn [fst] in Es'. subst s'.
-      destruct (i_clk _ (g_inv _ G3)) as (A & B & C & D). unfold NW in N3.
-      constructor; cbn; try reflexivity; try lia. - intros _. unfold ClockOK; cbn. lia. - exists []; auto. }
+    { rewrite Es'. apply passive_uptime_usec; [apply (i_clk _ (g_inv _ G3))|rewrite <- Es'; exact N]. }
     destruct (JF_passive e S _ _ P G3 J3) as [J' (add & O & Sr)]. split; auto.
     exists add. rewrite c7 in O. split; auto. intros tcb ch tg t0 dur u0 u H.
     destruct (Sr _ _ _ _ _ _ _ H) as [(x & Hx & R)|Hl]; [left; exists x; rewrite c1 in Hx; auto|right; lia].
 Qed.
 
 Lemma adv_J e S c fuel : forall end_ s s',
-  s' = adv e c fuel end_ s -> wf_cfg c -> Good s -> J e S s -> NW s' -> Slack S (outs s') -> 0 <= S ->
+  s' = adv e c fuel end_ s -> wf_cfg c -> Good s -> J e S s -> NWw s' -> Slack S (outs s') -> 0 <= S ->
   J e S s' /\ finsrc s s'.
 Proof.
   induction fuel as [|k IH]; intros end_ s s' Es' W G Jj N SL HS; cbn [adv] in Es'.
@@ -2132,7 +2231,7 @@ Proof.
     apply pick_some in EP. unfold due_ok in EP. apply andb_true_iff in EP. destruct EP as [Hon _].
     remember (fire e c i s) as s1 eqn:Es1.
     assert (F1' : frame s1 s') by (subst s'; apply adv_frame).
-    assert (N1 : NW s1) by (eapply NW_frame; eauto).
+    assert (N1 : NWw s1) by (eapply NW_frame; eauto).
     assert (SL1 : Slack S (outs s1)) by (eapply Slack_frame; eauto).
     destruct (fire_spec e c i s s1 Es1 W G Hon N1) as (G1 & F1 & E1).
     destruct (fire_J e S c i s s1 Es1 W G Jj Hon N1 SL1 HS) as (J1 & FS1).
@@ -2140,14 +2239,14 @@ Proof.
     split; auto. eapply finsrc_trans; eauto. apply F1.
 Qed.
 Lemma advance_J e S c dt s s' :
-  s' = advance e c dt s -> wf_cfg c -> Good s -> J e S s -> NW s' -> Slack S (outs s') -> 0 <= S ->
+  s' = advance e c dt s -> wf_cfg c -> Good s -> J e S s -> NWw s' -> Slack S (outs s') -> 0 <= S ->
   J e S s' /\ finsrc s s'.
 Proof.
   intros Es' W G Jj N SL HS. unfold advance in Es'.
   remember (adv e c (Z.to_nat (dt / 20000 + 64)) (now s + dt) s) as s1 eqn:Es1.
   assert (F1 : frame s s1) by (subst s1; apply adv_frame).
   destruct (now s1 <? now s + dt) eqn:E; [apply Z.ltb_lt in E|apply Z.ltb_ge in E].
-  - assert (N1 : NW s1). { subst s'. unfold NW in *. cbn in N. lia. }
+  - assert (N1 : NWw s1) by (apply (NW_ext s1 s'); [subst s'; reflexivity|subst s'; reflexivity|subst s'; cbn; lia|exists []; subst s'; reflexivity|exact N]).
     assert (SL1 : Slack S (outs s1)) by (subst s'; exact SL).
     destruct (adv_spec e c _ _ s s1 Es1 W G N1) as (G1 & E1).
     destruct (adv_J e S c _ _ s s1 Es1 W G Jj N1 SL1 HS) as ([Jd Jq Jo] & (add & O & Sr)).
@@ -2157,7 +2256,7 @@ Proof.
 Qed.
 
 Lemma restore_relay_J e S c s s' a r :
-  s' = restore_relay e c s (a, r) -> wf_cfg c -> In r (c_relays c) -> Good s -> J e S s -> NW s' -> Slack S (outs s') -> 0 <= S ->
+  s' = restore_relay e c s (a, r) -> wf_cfg c -> In r (c_relays c) -> Good s -> J e S s -> NWw s' -> Slack S (outs s') -> 0 <= S ->
   J e S s' /\ finsrc s s'.
 Proof.
   intros Es' W Hr G Jj N SL HS. unfold restore_relay in Es'. pose proof (wf_chan _ W r Hr) as Hc.
@@ -2167,7 +2266,7 @@ Proof.
     rewrite Lt in Es'.
     remember (set_duration_timer e c (r_chan r) (s8 (getz (ram_relay s) a)) (s32 (getz (ram_t2 s) (r_chan r))) 0 s) as s1 eqn:Es1.
     assert (P : passive s1 s') by (subst s'; apply passive_relay_hi).
-    assert (N1 : NW s1) by (eapply NW_passive; eauto).
+    assert (N1 : NWw s1) by (eapply NW_passive; eauto).
     assert (SL1 : Slack S (outs s1)) by (eapply Slack_frame; [apply frame_passive; exact P|auto]).
     pose proof (s32_range (getz (ram_t2 s) (r_chan r))).
     destruct (set_duration_timer_spec e c _ _ _ _ s s1 Es1 W G Hc ltac:(lia) N1) as (G1 & F1 & _ & E1 & _).
@@ -2179,13 +2278,13 @@ Proof.
 Qed.
 Lemma fold_restore_J e S c : forall l s s',
   s' = fold_left (restore_relay e c) l s -> wf_cfg c -> (forall ar, In ar l -> In (snd ar) (c_relays c)) -> Good s -> J e S s ->
-  NW s' -> Slack S (outs s') -> 0 <= S -> J e S s' /\ finsrc s s'.
+  NWw s' -> Slack S (outs s') -> 0 <= S -> J e S s' /\ finsrc s s'.
 Proof.
   induction l as [|[a r] l IH]; intros s s' Es' W Hl G Jj N SL HS; cbn [fold_left] in Es'.
   - subst s'. split; [auto|apply finsrc_refl].
   - remember (restore_relay e c s (a, r)) as s1 eqn:Es1.
     assert (F1' : frame s1 s') by (subst s'; apply fold_restore_frame).
-    assert (N1 : NW s1) by (eapply NW_frame; eauto).
+    assert (N1 : NWw s1) by (eapply NW_frame; eauto).
     assert (SL1 : Slack S (outs s1)) by (eapply Slack_frame; eauto).
     destruct (restore_relay_spec e c s s1 a r Es1 W (Hl (a, r) (or_introl eq_refl)) G N1) as (G1 & E1).
     destruct (restore_relay_J e S c s s1 a r Es1 W (Hl (a, r) (or_introl eq_refl)) G Jj N1 SL1 HS) as (J1 & FS1).
@@ -2198,7 +2297,7 @@ Definition OTO (e : bool) (S : Z) (l : list out) : Prop :=
   e = true -> forall tcb ch tg t0 dur u0 u, In (GFinish tcb ch tg t0 dur u0 u) l -> tcb < t0 + dur * 1000 + OTB S.
 
 Lemma boot_J e S c s s' :
-  s' = boot e c s -> wf_cfg c -> TrO s -> 0 <= cnt0 s -> tb s <= now s -> OTO e S (outs s) -> NW s' -> Slack S (outs s') -> 0 <= S ->
+  s' = boot e c s -> wf_cfg c -> TrO s -> 0 <= cnt0 s -> tb s <= now s -> OTO e S (outs s) -> NWw s' -> Slack S (outs s') -> 0 <= S ->
   J e S s' /\ (exists add, outs s' = add ++ outs s /\ forall tcb ch tg t0 dur u0 u, In (GFinish tcb ch tg t0 dur u0 u) add -> now s <= t0).
 Proof.
   intros Es' W TO C0 Ct OT N SL HS. unfold boot, boot_l in Es'.
@@ -2231,17 +2330,16 @@ Proof.
     - intros _ x Hx Ax. destruct (free_inactive x Hx). congruence.
     - exact OT. }
   remember (fst (uptime_usec s6)) as s7 eqn:Es7.
-  assert (F67 : frame s6 s7) by (subst s7; unfold uptime_usec; cbn [fst]; constructor; cbn; try reflexivity; try lia; exists []; auto).
+  assert (F67 : frame s6 s7) by (subst s7; apply frame_uptime_usec).
   assert (F7' : frame s7 s') by (subst s'; constructor; cbn; try reflexivity; try lia; exists []; auto).
   pose proof (frame_trans _ _ _ F67 F7') as F6'.
-  assert (N6 : NW s6) by (eapply NW_frame; eauto).
+  assert (N6 : NWw s6) by (eapply NW_frame; eauto).
   assert (SL6 : Slack S (outs s6)) by (eapply Slack_frame; eauto).
   destruct (fold_restore_spec e c _ s5 s6 Es6 W (enum_snd _ 0) G5 N6) as (G6 & E6).
   destruct (fold_restore_J e S c _ s5 s6 Es6 W (enum_snd _ 0) G5 J5 N6 SL6 HS) as (J6 & (add & O6 & Sr6)).
   assert (P67 : passive s6 s7).
-  { pose proof (uptime_usec_spec s6 (i_clk _ (g_inv _ G6)) N6) as U. rewrite U in Es7. cbn [fst] in Es7. subst s7.
-    destruct (i_clk _ (g_inv _ G6)) as (A & B & C & D). unfold NW in N6.
-    constructor; cbn; try reflexivity; try lia. - intros _. unfold ClockOK; cbn. lia. - exists []; auto. }
+  { assert (N7 : NWw s7) by (eapply NW_frame; [exact F7'|exact N]).
+    rewrite Es7. apply passive_uptime_usec; [apply (i_clk _ (g_inv _ G6))|rewrite <- Es7; exact N7]. }
   destruct (JF_passive e S _ _ P67 G6 J6) as [[Jd Jq Jo] (add7 & O7 & Sr7)].
   split.
   - subst s'. constructor; cbn; auto.
@@ -2262,7 +2360,7 @@ Proof.
   set (s5 := set_obuf [] _).
   set (s6 := fold_left (restore_relay e c) (enum 0 (c_relays c)) s5).
   destruct (fold_restore_frame e c (enum 0 (c_relays c)) s5) as [_ _ _ (a & E)]. fold s6 in E.
-  exists a. unfold uptime_usec. cbn [fst outs set_seqc set_upl set_upc]. rewrite E. reflexivity.
+  eexists (_ :: a). unfold uptime_usec. cbn [fst outs set_seqc set_upl set_upc emit set_outs]. rewrite E. reflexivity.
 Qed.
 Lemma step_outs e c s x : wf_ev x -> exists add, outs (step e c s x) = add ++ outs s.
 Proof.
@@ -2281,13 +2379,13 @@ Proof.
 Qed.
 
 Lemma step_J e S c s x s' :
-  s' = step e c s x -> wf_cfg c -> wf_ev x -> Good s -> J e S s -> NW s' -> Slack S (outs s') -> 0 <= S ->
+  s' = step e c s x -> wf_cfg c -> wf_ev x -> Good s -> J e S s -> NWw s' -> Slack S (outs s') -> 0 <= S ->
   J e S s' /\ finsrc s s'.
 Proof.
   intros Es' W Wx G Jj N SL HS. unfold step in Es'.
   set (s1 := match x with ESet _ _ _ _ => _ | _ => _ end) in *.
   assert (P : passive s1 s') by (subst s'; apply passive_emit; exact Logic.I).
-  assert (N1 : NW s1) by (eapply NW_passive; eauto).
+  assert (N1 : NWw s1) by (eapply NW_passive; eauto).
   assert (SL1 : Slack S (outs s1)) by (eapply Slack_frame; [apply frame_passive; exact P|auto]).
   destruct (step_spec e c s x s' ltac:(subst s'; reflexivity) W Wx G N) as (G' & Hn & E' & _ & _).
   assert (K : Good s1 /\ now s <= now s1 /\ evo (ev_chan c x) s s1 /\ J e S s1 /\ finsrc s s1).
@@ -2331,11 +2429,11 @@ Proof.
   destruct (JF_passive e S _ _ P G1 J1) as [J' FS']. split; auto. eapply finsrc_trans; eauto.
 Qed.
 
-Lemma run_J e S c : forall evs s, wf_cfg c -> Forall wf_ev evs -> Good s -> J e S s -> NWrun e c s evs ->
+Lemma run_J e S c : forall evs s, wf_cfg c -> Forall wf_ev evs -> Good s -> J e S s -> NWwrun e c s evs ->
   Slack S (outs (run_from e c s evs)) -> 0 <= S -> Good (run_from e c s evs) /\ J e S (run_from e c s evs).
 Proof.
   induction evs as [|x evs IH]; intros s W Wx G Jj N SL HS; [cbn; auto|]. change (run_from e c s (x :: evs)) with (run_from e c (step e c s x) evs) in *.
-  apply NWrun_cons in N. destruct N as [N1 N2]. inversion Wx; subst.
+  apply NWwrun_cons in N. destruct N as [N1 N2]. inversion Wx; subst.
   destruct (run_outs e c evs (step e c s x) H2) as (a & E).
   assert (SL1 : Slack S (outs (step e c s x))) by (rewrite E in SL; eapply Slack_app; eauto).
   destruct (step_spec e c s x _ eq_refl W H1 G N1) as (G1 & _).
@@ -2343,11 +2441,11 @@ Proof.
   apply IH; auto.
 Qed.
 
-Lemma start_J e S c : wf_cfg c -> NW (start e c) -> Slack S (outs (start e c)) -> 0 <= S -> J e S (start e c).
+Lemma start_J e S c : wf_cfg c -> NWw (start e c) -> Slack S (outs (start e c)) -> 0 <= S -> J e S (start e c).
 Proof.
   intros W N SL HS. unfold start in *. set (s := boot e c (init c)) in *.
   assert (P : passive s (emit (st_line c s) s)) by (apply passive_emit; exact Logic.I).
-  assert (N1 : NW s) by (eapply NW_passive; eauto).
+  assert (N1 : NWw s) by (eapply NW_passive; eauto).
   assert (SL1 : Slack S (outs s)) by (eapply Slack_frame; [apply frame_passive; exact P|auto]).
   assert (TO : TrO (init c)) by (constructor; cbn; [intros; contradiction|constructor]).
   assert (C0 : 0 <= cnt0 (init c)) by (cbn; apply (wf_boot _ W)).
@@ -2364,7 +2462,7 @@ Variable c : cfg.
 Hypothesis W : wf_cfg c.
 Variable evs : list ev.
 Hypothesis Wev : Forall wf_ev evs.
-Hypothesis H_nowrap : NWrun true c (start true c) evs.
+Hypothesis H_nowrap : NWwrun true c (start true c) evs.
 Variable S : Z.
 Hypothesis HS : 0 <= S.
 (* H_slack: every evaluation of the slot table (timer callback, or the one made by a new command) started no later
@@ -2372,9 +2470,9 @@ Hypothesis HS : 0 <= S.
    relay operations that delayed it *)
 Hypothesis H_slack : Slack S (outs (run_from true c (start true c) evs)).
 
-Theorem on_time_thm :
+Theorem on_time_w :
   forall tcb ch tg t0 dur u0 u, In (GFinish tcb ch tg t0 dur u0 u) (run true c evs) ->
-    tcb < t0 + dur * 1000 + CD_MIN * 1000 + S + 2 * (8 * OP).
+    tcb < t0 + dur * 1000 + CD_MIN * 1000 + S + 2 * (8 * OP) + WB.
 Proof.
   intros * H. unfold run in H. apply in_rev in H.
   destruct (run_outs true c evs (start true c) Wev) as (a & E).
@@ -2406,11 +2504,11 @@ Qed.
 
 (* With the repaired countdown(): a slot that is still running after an advance that reached time T was armed less than
    dur + 50 ms + 8 relay operations before T.  Hence once an advance reaches t0 + dur + 50 ms + 8*OP the slot is gone. *)
-Theorem fires_by_thm c S s dt :
+Theorem fires_by_w c S s dt :
   wf_cfg c -> 0 <= dt -> Good s -> J true S s -> 0 <= S ->
   let s' := advance true c dt s in
-  NW s' -> Slack S (outs s') -> ~ In OFuel (outs s') ->
-  forall x, In x (slots s') -> active x = true -> now s + dt < g_t0 x + g_dur x * 1000 + CD_MIN * 1000 + 8 * OP.
+  NWw s' -> Slack S (outs s') -> ~ In OFuel (outs s') ->
+  forall x, In x (slots s') -> active x = true -> now s + dt < g_t0 x + g_dur x * 1000 + CD_MIN * 1000 + 8 * OP + WB.
 Proof.
   intros W Hdt G Jj HS s' N SL NF x Hx Ax.
   destruct (advance_spec true c dt s s' eq_refl W G N) as (G' & _ & _).
@@ -2419,8 +2517,9 @@ Proof.
   destruct (g_t1 _ G' x Hx Ax) as (On & (_ & Hc) & Hp).
   specialize (D On). pose proof (j_q _ _ _ J' eq_refl x Hx Ax) as Q.
   destruct (i_ok _ (g_inv _ G') x Hx Ax) as [Sch Sleft Sdur Sacct Slast Su0 (T1' & T2' & T3')].
-  assert (Gap : g_tl x - g_t0 x < (g_dur x - s_left x + 1) * 1000).
-  { apply rd_diff_hi with (s := s'). rewrite <- Slast, <- Su0. lia. }
+  assert (Gap : g_tl x - g_t0 x < (g_dur x - s_left x + 1) * 1000 + WB).
+  { destruct (i_clk _ (g_inv _ G')) as (_ & _ & _ & Cc & _). destruct N as [Nb _].
+    apply rd_diff_hi with (s := s'); [lia|lia|lia|]. rewrite <- Slast, <- Su0. lia. }
   pose proof (period_arith (g_dur x) (s_left x) ltac:(lia)) as PA. unfold BQ in Q. nia.
 Qed.
 
@@ -2437,7 +2536,7 @@ Lemma Slack_mono S S' l : S <= S' -> Slack S l -> Slack S' l.
 Proof. intros H SL due t Hin. specialize (SL _ _ Hin). lia. Qed.
 
 Lemma fresh_step e c ch t s x s' :
-  s' = step e c s x -> wf_cfg c -> wf_ev x -> Good s -> NW s' -> t <= now s -> fresh ch t s -> fresh ch t s'.
+  s' = step e c s x -> wf_cfg c -> wf_ev x -> Good s -> NWw s' -> t <= now s -> fresh ch t s -> fresh ch t s'.
 Proof.
   intros Es' W Wx G N Ht F y Hy Ay Ey.
   destruct (step_spec e c s x s' Es' W Wx G N) as (_ & _ & E & _).
@@ -2448,14 +2547,14 @@ Qed.
 (* after a command on channel ch handled at time t1 (state s2: every running slot of ch was armed at or after t1),
    whatever follows, every later switch-back of ch belongs to a timer armed at or after t1 *)
 Lemma post_fresh e S c ch t1 : forall post s2,
-  wf_cfg c -> Forall wf_ev post -> Good s2 -> J e S s2 -> fresh ch t1 s2 -> t1 <= now s2 -> NWrun e c s2 post ->
+  wf_cfg c -> Forall wf_ev post -> Good s2 -> J e S s2 -> fresh ch t1 s2 -> t1 <= now s2 -> NWwrun e c s2 post ->
   Slack S (outs (run_from e c s2 post)) -> 0 <= S ->
   forall tcb tg t0 dur u0 u, In (GFinish tcb ch tg t0 dur u0 u) (outs (run_from e c s2 post)) ->
     In (GFinish tcb ch tg t0 dur u0 u) (outs s2) \/ t1 <= t0.
 Proof.
   induction post as [|x post IH]; intros s2 W Wp G Jj F Ht N SL HS tcb tg t0 dur u0 u H; [left; exact H|].
   change (run_from e c s2 (x :: post)) with (run_from e c (step e c s2 x) post) in *.
-  apply NWrun_cons in N. destruct N as [N1 N2]. inversion Wp; subst.
+  apply NWwrun_cons in N. destruct N as [N1 N2]. inversion Wp; subst.
   destruct (run_outs e c post (step e c s2 x) H3) as (a & Ea).
   assert (SL1 : Slack S (outs (step e c s2 x))) by (rewrite Ea in SL; eapply Slack_app; eauto).
   destruct (step_spec e c s2 x _ eq_refl W H2 G N1) as (G1 & Hn & E & _ & _).
@@ -2468,7 +2567,7 @@ Qed.
 
 Lemma run_from_app e c s a b : run_from e c s (a ++ b) = run_from e c (run_from e c s a) b.
 Proof. unfold run_from. apply fold_left_app. Qed.
-Lemma NWrun_app e c s a b : NWrun e c s (a ++ b) -> NWrun e c s a /\ NWrun e c (run_from e c s a) b.
+Lemma NWwrun_app e c s a b : NWwrun e c s (a ++ b) -> NWwrun e c s a /\ NWwrun e c (run_from e c s a) b.
 Proof.
   intros H. split.
   - intros k. destruct (Nat.le_ge_cases k (length a)) as [L|L].
@@ -2487,8 +2586,8 @@ Definition cmd_on (c : cfg) (x : ev) (ch : Z) : Prop :=
   | _ => False
   end.
 
-Theorem cancel_thm e c pre x post ch :
-  wf_cfg c -> Forall wf_ev (pre ++ x :: post) -> NWrun e c (start e c) (pre ++ x :: post) -> cmd_on c x ch ->
+Theorem cancel_w e c pre x post ch :
+  wf_cfg c -> Forall wf_ev (pre ++ x :: post) -> NWwrun e c (start e c) (pre ++ x :: post) -> cmd_on c x ch ->
   let s1 := run_from e c (start e c) pre in
   let s2 := step e c s1 x in
   forall tcb tg t0 dur u0 u, In (GFinish tcb ch tg t0 dur u0 u) (outs (run_from e c (start e c) (pre ++ x :: post))) ->
@@ -2497,7 +2596,7 @@ Proof.
   intros W Wev N Cm s1 s2.
   destruct (slack_exists (outs (run_from e c (start e c) (pre ++ x :: post)))) as (S & HS & SL).
   apply Forall_app in Wev. destruct Wev as [Wpre Wxp]. inversion Wxp as [|? ? Wx Wpost]; subst.
-  apply NWrun_app in N. destruct N as [Npre Nxp]. fold s1 in Nxp.
+  apply NWwrun_app in N. destruct N as [Npre Nxp]. fold s1 in Nxp.
   pose proof (Npre 0%nat) as N0. cbn in N0.
   rewrite run_from_app in *. fold s1 in SL |- *.
   change (run_from e c s1 (x :: post)) with (run_from e c s2 post) in *.
@@ -2508,13 +2607,13 @@ Proof.
   assert (SL0 : Slack S (outs (start e c))) by (rewrite E1 in SL1; eapply Slack_app; eauto).
   destruct (run_J e S c pre (start e c) W Wpre (start_good e c W N0) (start_J e S c W N0 SL0 HS) Npre SL1 HS) as (G1 & J1).
   fold s1 in G1, J1.
-  apply NWrun_cons in Nxp. destruct Nxp as [N2 Npost]. fold s2 in N2, Npost.
+  apply NWwrun_cons in Nxp. destruct Nxp as [N2 Npost]. fold s2 in N2, Npost.
   destruct (step_spec e c s1 x s2 eq_refl W Wx G1 N2) as (G2 & Hn & _).
   destruct (step_J e S c s1 x s2 eq_refl W Wx G1 J1 N2 SL2 HS) as (J2 & _).
   assert (F2 : fresh ch (now s1) s2).
   { unfold s2, step. set (sm := match x with ESet _ _ _ _ => _ | _ => _ end).
     assert (P : passive sm (emit (st_line c sm) sm)) by (apply passive_emit; exact Logic.I).
-    assert (Nm : NW sm) by (eapply NW_passive; [exact P|exact N2]).
+    assert (Nm : NWw sm) by (eapply NW_passive; [exact P|exact N2]).
     eapply fresh_passive; [exact P|]. destruct x; cbn [cmd_on] in Cm; try contradiction; unfold sm.
     - destruct Cm as (Eu & r & Hr & Er). unfold sm in Nm. rewrite Eu in *.
       destruct (channel_set_value_spec e c ch v dur sender s1 _ eq_refl W G1 Nm) as (_ & _ & _ & _ & Fr). eapply Fr; eauto.
@@ -2562,8 +2661,8 @@ Proof.
 Qed.
 
 (* between commands on a channel (and without a restart) its published remaining time never increases *)
-Theorem remaining_monotone_thm e c s x ch :
-  wf_cfg c -> wf_ev x -> Good s -> NW (step e c s x) -> 0 <= ch < 255 -> ~ ev_chan c x ch ->
+Theorem remaining_monotone_w e c s x ch :
+  wf_cfg c -> wf_ev x -> Good s -> NWw (step e c s x) -> 0 <= ch < 255 -> ~ ev_chan c x ch ->
   rem (step e c s x) ch <= rem s ch.
 Proof.
   intros W Wx G N Hch NC.
@@ -2628,14 +2727,14 @@ Proof.
   rewrite (pa_slots _ _ (passive_ext_changed c ch _)), (pa_slots _ _ P2). exact Hz.
 Qed.
 
-Theorem restore_one_thm e c s a r :
+Theorem restore_one_w e c s a r :
   wf_cfg c -> Good s -> In r (c_relays c) ->
   find_chan (c_relays c) 0 (r_chan r) = Some (a, r) -> find_gpio (c_relays c) 0 (r_gpio r) = Some (a, r) ->
   hasf (r_flags r) FLAG_RESTORE_FORCE || hasf (r_flags r) FLAG_RESTORE = true ->
   let v := getz (ram_relay s) a in
   let T := getz (ram_t2 s) (r_chan r) in
   let s' := restore_relay e c s (a, r) in
-  v = 0 \/ v = 1 -> NW s' ->
+  v = 0 \/ v = 1 -> NWw s' ->
   (* the relay comes back in its saved state ... *)
   pin s' (r_gpio r) = xorb (v =? 1) (hasf (r_flags r) FLAG_LO_LEVEL) /\
   (* ... and, when a remaining time was saved and the timer could have been armed before the restart (on for T, or off
@@ -2656,7 +2755,7 @@ Proof.
   intros HT (xf & Hxf & Exf) Hcase.
   assert (P : passive s1 (relay_hi c (r_gpio r) v s1)) by apply passive_relay_hi.
   destruct (pa_outs _ _ P) as (ap & Eo & _).
-  assert (N1 : NW s1) by (eapply NW_passive; eauto).
+  assert (N1 : NWw s1) by (eapply NW_passive; eauto).
   assert (E8 : s8 v = v) by (destruct Hv as [->| ->]; reflexivity).
   assert (E32 : s32 T = T) by (unfold s32; rewrite Z.mod_small by lia; destruct (T <? 2147483648) eqn:E; auto; apply Z.ltb_ge in E; lia).
   cut (exists t0, now s <= t0 <= now s + 8 * OP /\ In (GArm t0 (r_chan r) T (1 - v)) (outs s1)).
@@ -2685,7 +2784,7 @@ Proof.
   assert (P2 : passive s2 (if hasf f CHFLAG_COUNTDOWN then ext_changed c (r_chan r) s2 else s2))
     by (destruct (hasf f _); [apply passive_ext_changed|apply passive_refl]).
   destruct (pa_outs _ _ P2) as (a2 & Eo2 & _).
-  assert (N2 : NW s2) by (eapply NW_passive; eauto).
+  assert (N2 : NWw s2) by (eapply NW_passive; eauto).
   cut (exists t0, now s <= t0 <= now s + 8 * OP /\ In (GArm t0 (r_chan r) T (1 - v)) (outs s2)).
   { intros (t0 & Ht & Hin). exists t0. split; auto. rewrite Eo2. apply in_or_app. right. exact Hin. }
   clear P2 a2 Eo2.
@@ -2698,7 +2797,7 @@ Proof.
   { unfold s2, countdown. destruct e.
     - remember (cd_cb c (if t_on (tcd s1) then t_due (tcd s1) else now s1) s1) as s0 eqn:Es0.
       exists s0. split; [reflexivity|].
-      assert (N0 : NW s0) by (eapply NW_frame; [|exact N2]; unfold s2, countdown; rewrite <- Es0; apply arm_slot_frame).
+      assert (N0 : NWw s0) by (eapply NW_frame; [|exact N2]; unfold s2, countdown; rewrite <- Es0; apply arm_slot_frame).
       destruct (cd_cb_spec c _ s1 s0 Es0 (g_inv _ G1) (g_tr _ G1) N0) as (G0 & F0 & Nw0 & EV & _ & _).
       split; [auto|]. split; [destruct F0; lia|]. split.
       + apply (evald_nochan s1 s0 (r_chan r) ltac:(lia) (g_inv _ G1) (i_len _ (g_inv _ G0)) EV NoCh).
@@ -2715,6 +2814,82 @@ Proof.
   - exists (now s0). split; [exact Hn0|]. rewrite E'.
     destruct (fr_outs _ _ (frame_startstop s3)) as (a3 & Eo3). rewrite Eo3. apply in_or_app. right. rewrite O3. apply in_or_app. left.
     replace (1 - v) with (if v =? 0 then 1 else 0) by (destruct Hv as [->| ->]; reflexivity). exact HA.
+Qed.
+
+End W.
+
+(* ---------- no wrap at all: the instance WB = 0 ----------
+   NW / NWrun are the plain "the 32-bit counter does not wrap" hypotheses; the theorems below are the statements
+   proved before counter wraps were followed, now instances of the general ones (suffix _w). *)
+Definition NW (s : st) : Prop := cnt0 s + (now s - tb s) < 4294967296.
+Definition NWrun (e : bool) (c : cfg) (s : st) (evs : list ev) : Prop := forall k, NW (run_from e c s (firstn k evs)).
+Definition nowrap : Wraps := {| WB := 0; WB_range := conj (Z.le_refl 0) eq_refl |}.
+Global Existing Instance nowrap.
+Lemma NW_NWw s : NW s -> @NWw nowrap s.
+Proof. intros H. split; [exact H|left; reflexivity]. Qed.
+Lemma NWw_NW s : @NWw nowrap s -> NW s.
+Proof. intros [H _]. exact H. Qed.
+Lemma NWrun_NWwrun e c s evs : NWrun e c s evs -> @NWwrun nowrap e c s evs.
+Proof. intros H k. apply NW_NWw. apply H. Qed.
+
+Theorem armed_period_bound_thm e c : wf_cfg c -> forall evs, Forall wf_ev evs -> NWrun e c (start e c) evs ->
+  forall x, In x (slots (run_from e c (start e c) evs)) -> active x = true ->
+    t_on (tcd (run_from e c (start e c) evs)) = true /\
+    CD_MIN <= delay (run_from e c (start e c) evs) <= clampd (s_left x) /\
+    t_per (tcd (run_from e c (start e c) evs)) = delay (run_from e c (start e c) evs) * 1000.
+Proof. intros W evs Wev N. exact (@armed_period_bound_w nowrap e c W evs Wev (NWrun_NWwrun _ _ _ _ N)). Qed.
+Theorem never_early_thm e c : wf_cfg c -> forall evs, Forall wf_ev evs -> NWrun e c (start e c) evs ->
+  forall tcb ch tg t0 dur u0 u, In (GFinish tcb ch tg t0 dur u0 u) (run e c evs) ->
+    (dur - 1) * 1000 < tcb - t0 /\ In (GArm t0 ch dur tg) (run e c evs).
+Proof. intros W evs Wev N. exact (@never_early_w nowrap e c W evs Wev (NWrun_NWwrun _ _ _ _ N)). Qed.
+Theorem at_most_once_thm e c : wf_cfg c -> forall evs, Forall wf_ev evs -> NWrun e c (start e c) evs ->
+  NoDup (fins (outs (run_from e c (start e c) evs))).
+Proof. intros W evs Wev N. exact (@at_most_once_w nowrap e c W evs Wev (NWrun_NWwrun _ _ _ _ N)). Qed.
+Theorem on_time_thm c : wf_cfg c -> forall evs, Forall wf_ev evs -> NWrun true c (start true c) evs ->
+  forall S, 0 <= S -> Slack S (outs (run_from true c (start true c) evs)) ->
+  forall tcb ch tg t0 dur u0 u, In (GFinish tcb ch tg t0 dur u0 u) (run true c evs) ->
+    tcb < t0 + dur * 1000 + CD_MIN * 1000 + S + 2 * (8 * OP).
+Proof.
+  intros W evs Wev N S HS SL tcb ch tg t0 dur u0 u H.
+  pose proof (@on_time_w nowrap c W evs Wev (NWrun_NWwrun _ _ _ _ N) S HS SL tcb ch tg t0 dur u0 u H) as B.
+  change (@WB nowrap) with 0 in B. lia.
+Qed.
+Theorem fires_by_thm c S s dt :
+  wf_cfg c -> 0 <= dt -> Good s -> J true S s -> 0 <= S ->
+  let s' := advance true c dt s in
+  NW s' -> Slack S (outs s') -> ~ In OFuel (outs s') ->
+  forall x, In x (slots s') -> active x = true -> now s + dt < g_t0 x + g_dur x * 1000 + CD_MIN * 1000 + 8 * OP.
+Proof.
+  intros W Hdt G Jj HS s' N SL NF x Hx Ax.
+  pose proof (@fires_by_w nowrap c S s dt W Hdt G Jj HS (NW_NWw _ N) SL NF x Hx Ax) as B.
+  change (@WB nowrap) with 0 in B. lia.
+Qed.
+Theorem cancel_thm e c pre x post ch :
+  wf_cfg c -> Forall wf_ev (pre ++ x :: post) -> NWrun e c (start e c) (pre ++ x :: post) -> cmd_on c x ch ->
+  let s1 := run_from e c (start e c) pre in
+  let s2 := step e c s1 x in
+  forall tcb tg t0 dur u0 u, In (GFinish tcb ch tg t0 dur u0 u) (outs (run_from e c (start e c) (pre ++ x :: post))) ->
+    In (GFinish tcb ch tg t0 dur u0 u) (outs s2) \/ now s1 <= t0.
+Proof. intros W Wev N Hc. exact (@cancel_w nowrap e c pre x post ch W Wev (NWrun_NWwrun _ _ _ _ N) Hc). Qed.
+Theorem remaining_monotone_thm e c s x ch :
+  wf_cfg c -> wf_ev x -> Good s -> NW (step e c s x) -> 0 <= ch < 255 -> ~ ev_chan c x ch ->
+  rem (step e c s x) ch <= rem s ch.
+Proof. intros W Wx G N. exact (@remaining_monotone_w nowrap e c s x ch W Wx G (NW_NWw _ N)). Qed.
+Theorem restore_one_thm e c s a r :
+  wf_cfg c -> Good s -> In r (c_relays c) ->
+  find_chan (c_relays c) 0 (r_chan r) = Some (a, r) -> find_gpio (c_relays c) 0 (r_gpio r) = Some (a, r) ->
+  hasf (r_flags r) FLAG_RESTORE_FORCE || hasf (r_flags r) FLAG_RESTORE = true ->
+  let v := getz (ram_relay s) a in
+  let T := getz (ram_t2 s) (r_chan r) in
+  let s' := restore_relay e c s (a, r) in
+  v = 0 \/ v = 1 -> NW s' ->
+  pin s' (r_gpio r) = xorb (v =? 1) (hasf (r_flags r) FLAG_LO_LEVEL) /\
+  (0 < T < 2147483648 -> (exists x, In x (slots s) /\ s_chan x = 255) ->
+   v = 1 \/ (getz (time2 s) (r_chan r) = 0 /\ hasf (getz (chfl s) a) CHFLAG_COUNTDOWN = true) ->
+   exists t0, now s <= t0 <= now s + 8 * OP /\ In (GArm t0 (r_chan r) T (1 - v)) (outs s')).
+Proof.
+  intros W G Hr EFC EFG Hfl v T s' Hv N.
+  exact (@restore_one_w nowrap e c s a r W G Hr EFC EFG Hfl Hv (NW_NWw _ N)).
 Qed.
 
 (* ---------- the hypotheses are satisfiable: decidable versions, evaluated on the witness histories ---------- *)
